@@ -1,7 +1,7 @@
 (* PathSoundProofs.v — C02, first clause: path tracking of the reference semantics Sem is sound on the
    navigation fragment of PathSound.v.  Proofs. *)
 From Coq Require Import String.
-From Coq Require Import List ZArith NArith Bool Lia.
+From Coq Require Import List ZArith NArith Bool Lia Wf_nat.
 From Verif Require Import common.Sexp sem.JV sem.Syntax sem.Natives sem.Sem sem.SemProofs sem.PathSound.
 Import ListNotations.
 
@@ -217,24 +217,106 @@ Proof. eexists. vm_compute. reflexivity. Qed.
 (* the simulation: a term run inside path(..) (mode MPath) or in an expression region of the path run
    (mode MPlain), against the same term run outside path(..), on the same value *)
 
+(* -- frames -- *)
+Lemma desc_weaken ids b b' : (b <= b')%N -> desc ids b -> desc ids b'.
+Proof. destruct ids; cbn; [tauto|]. intros H [H1 H2]. split; [lia|exact H2]. Qed.
+
+Lemma desc_in ids : forall b i, desc ids b -> In i ids -> (i < b)%N.
+Proof.
+  induction ids as [|j r IH]; intros b i H Hin; [destruct Hin|]. destruct H as [H1 H2].
+  destruct Hin as [<-|Hin]; [exact H1|]. specialize (IH _ _ H2 Hin). lia.
+Qed.
+
+Lemma desc_app_lt ext : forall x rest b, desc (ext ++ x :: rest) b -> forall i, In i ext -> (x < i)%N.
+Proof.
+  induction ext as [|e ext IH]; intros x rest b H i Hin; [destruct Hin|]. cbn in H. destruct H as [H1 H2].
+  destruct Hin as [<-|Hin]; [|eapply IH; eassumption].
+  eapply desc_in; [exact H2|]. apply in_or_app. right. left. reflexivity.
+Qed.
+
+Lemma with_cell_eq sc init body after s :
+  with_cell sc init body after s =
+  match body (nextid s) (push_cell s init) with
+  | (inl _, t) => match cell_lookup (cells t) (nextid s) with
+                  | Some v => after v (restore_cell sc (nextid s) (nextid s) t)
+                  | None => (inr (XSkip (codes "cell")), t)
+                  end
+  | (inr x, t) => (inr x, restore_cell sc (nextid s) (nextid s) t)
+  end.
+Proof. reflexivity. Qed.
+
+Lemma lab_in_mono ext w a b : lab_in w a b -> lab_in (ext ++ w) a b.
+Proof. intros [fr [H1 H2]]. exists fr. split; [apply in_or_app; right; exact H1|exact H2]. Qed.
+
+Lemma env_rel_mono ext w rho1 rho2 : env_rel w rho1 rho2 -> env_rel (ext ++ w) rho1 rho2.
+Proof. induction 1; constructor; auto. apply lab_in_mono. assumption. Qed.
+
+Lemma xrel_mono ext w x1 x2 : xrel w x1 x2 -> xrel (ext ++ w) x1 x2.
+Proof. destruct x1, x2; cbn; auto. apply lab_in_mono. Qed.
+
+(* updating / reading corresponding cells somewhere in the stacks *)
+Lemma cells_upd ext fr w0 : forall cs1 cs2 b1 b2 v1 v2,
+  map fst cs1 = map f1 (ext ++ fr :: w0) -> map fst cs2 = map f2 (ext ++ fr :: w0) ->
+  Forall2 cell_val_rel cs1 cs2 ->
+  desc (map f1 (ext ++ fr :: w0)) b1 -> desc (map f2 (ext ++ fr :: w0)) b2 -> fst v1 = fst v2 ->
+  map fst (cell_update cs1 (f1 fr) v1) = map fst cs1 /\ map fst (cell_update cs2 (f2 fr) v2) = map fst cs2 /\
+  Forall2 cell_val_rel (cell_update cs1 (f1 fr) v1) (cell_update cs2 (f2 fr) v2).
+Proof.
+  induction ext as [|e ext IH]; intros cs1 cs2 b1 b2 v1 v2 M1 M2 HF D1 D2 Hv.
+  - destruct cs1 as [|[c1 u1] r1]; [discriminate M1|]. destruct cs2 as [|[c2 u2] r2]; [discriminate M2|].
+    cbn in M1, M2. injection M1 as -> M1. injection M2 as -> M2. cbn [cell_update]. rewrite !N.eqb_refl.
+    inversion HF; subst. repeat split; try reflexivity. constructor; [exact Hv|assumption].
+  - destruct cs1 as [|[c1 u1] r1]; [discriminate M1|]. destruct cs2 as [|[c2 u2] r2]; [discriminate M2|].
+    cbn [app map fst] in M1, M2, D1, D2. injection M1 as -> M1. injection M2 as -> M2.
+    destruct D1 as [D1a D1], D2 as [D2a D2]. inversion HF as [|? ? ? ? Hh Ht]; subst.
+    assert (N1 : (f1 e =? f1 fr)%N = false).
+    { apply N.eqb_neq. rewrite map_app in D1. cbn [map] in D1.
+      pose proof (desc_in _ _ (f1 fr) D1 ltac:(apply in_or_app; right; left; reflexivity)). lia. }
+    assert (N2 : (f2 e =? f2 fr)%N = false).
+    { apply N.eqb_neq. rewrite map_app in D2. cbn [map] in D2.
+      pose proof (desc_in _ _ (f2 fr) D2 ltac:(apply in_or_app; right; left; reflexivity)). lia. }
+    cbn [cell_update]. rewrite N1, N2. destruct (IH r1 r2 _ _ v1 v2 M1 M2 Ht D1 D2 Hv) as (A & B & C).
+    cbn [map fst]. rewrite A, B. repeat split; try reflexivity. constructor; assumption.
+Qed.
+
+Lemma cells_get ext fr w0 : forall cs1 cs2 b1 b2,
+  map fst cs1 = map f1 (ext ++ fr :: w0) -> map fst cs2 = map f2 (ext ++ fr :: w0) ->
+  Forall2 cell_val_rel cs1 cs2 ->
+  desc (map f1 (ext ++ fr :: w0)) b1 -> desc (map f2 (ext ++ fr :: w0)) b2 ->
+  exists u1 u2, cell_lookup cs1 (f1 fr) = Some u1 /\ cell_lookup cs2 (f2 fr) = Some u2 /\ fst u1 = fst u2.
+Proof.
+  induction ext as [|e ext IH]; intros cs1 cs2 b1 b2 M1 M2 HF D1 D2.
+  - destruct cs1 as [|[c1 u1] r1]; [discriminate M1|]. destruct cs2 as [|[c2 u2] r2]; [discriminate M2|].
+    cbn in M1, M2. injection M1 as -> M1. injection M2 as -> M2. cbn [cell_lookup]. rewrite !N.eqb_refl.
+    inversion HF; subst. exists u1, u2. repeat split; assumption.
+  - destruct cs1 as [|[c1 u1] r1]; [discriminate M1|]. destruct cs2 as [|[c2 u2] r2]; [discriminate M2|].
+    cbn [app map fst] in M1, M2, D1, D2. injection M1 as -> M1. injection M2 as -> M2.
+    destruct D1 as [D1a D1], D2 as [D2a D2]. inversion HF as [|? ? ? ? Hh Ht]; subst.
+    assert (N1 : (f1 e =? f1 fr)%N = false).
+    { apply N.eqb_neq. rewrite map_app in D1. cbn [map] in D1.
+      pose proof (desc_in _ _ (f1 fr) D1 ltac:(apply in_or_app; right; left; reflexivity)). lia. }
+    assert (N2 : (f2 e =? f2 fr)%N = false).
+    { apply N.eqb_neq. rewrite map_app in D2. cbn [map] in D2.
+      pose proof (desc_in _ _ (f2 fr) D2 ltac:(apply in_or_app; right; left; reflexivity)). lia. }
+    cbn [cell_lookup]. rewrite N1, N2. eapply IH; eassumption.
+Qed.
+
 Section Rel.
 Variable bs : list funcdef.
 Variable root : jv.
-(* the relation between the states of the two runs, kept abstract: it must tolerate the id allocations of
-   the path run, agree on the representation flag and on the step budget *)
-Variable R : sst -> sst -> Prop.
-Hypothesis R_bump : forall s1 s2, R s1 s2 -> R (bump s1) s2.
-Hypothesis R_rs : forall s1 s2, R s1 s2 -> repsens s1 = repsens s2.
-Hypothesis R_steps : forall s1 s2, R s1 s2 -> steps s1 = steps s2.
-Hypothesis R_dec : forall s1 s2, R s1 s2 -> R (dec_steps s1) (dec_steps s2).
 Hypothesis Hempty : lookup_builtin bs (codes "empty") 0 = None.
 Hypothesis Herror : lookup_builtin bs (codes "error") 0 = None.
 Hypothesis Hgetpath : lookup_builtin bs (codes "getpath") 1 = None.
 Hypothesis Hselect : lookup_builtin bs (codes "select") 1 = Some select_def.
+Hypothesis Hfirst : lookup_builtin bs (codes "first") 1 = Some first_def.
+Hypothesis Hrec1 : lookup_builtin bs (codes "recurse") 1 = Some recurse1_def.
+Hypothesis Hrec0 : lookup_builtin bs (codes "recurse") 0 = Some recurse0_def.
+Hypothesis Hlimit : lookup_builtin bs (codes "limit") 2 = Some limit_def.
+Hypothesis Herror1 : lookup_builtin bs (codes "error") 1 = None.
 
-(* results: no claim when either run declines; otherwise same ending (same exception) and related states *)
-Definition RR (r1 r2 : res) : Prop :=
-  declined r1 \/ declined r2 \/ (fst r1 = fst r2 /\ R (snd r1) (snd r2)).
+(* results at world w: no claim when either run declines; otherwise related endings and related states *)
+Definition RR (w : world) (r1 r2 : res) : Prop :=
+  declined r1 \/ declined r2 \/ (rrel w (fst r1) (fst r2) /\ SR root w (snd r1) (snd r2)).
 
 (* the path state is linked to the travelling value: it is the value last navigated to, and the recorded
    path navigates the root to it *)
@@ -249,62 +331,131 @@ Definition cfg (m : mode) (x : tv) (ps1 : pst) (y : tv) : Prop :=
   | MPlain => ps1 = None
   end.
 
-Definition krel (m : mode) (k1 k2 : K) : Prop :=
-  forall x ps1 y, cfg m x ps1 y -> forall s1 s2, R s1 s2 -> RR (k1 x ps1 s1) (k2 y None s2).
+(* continuations: related at one world / at every world that extends w (frames pushed since) *)
+Definition klocal (m : mode) (w : world) (k1 k2 : K) : Prop :=
+  forall x ps1 y, cfg m x ps1 y -> forall s1 s2, SR root w s1 s2 -> RR w (k1 x ps1 s1) (k2 y None s2).
+Definition krel (m : mode) (w : world) (k1 k2 : K) : Prop := forall ext, klocal m (ext ++ w) k1 k2.
+
+Lemma krel_local m w k1 k2 : krel m w k1 k2 -> klocal m w k1 k2.
+Proof. intros H. exact (H []). Qed.
+Lemma krel_mono ext m w k1 k2 : krel m w k1 k2 -> krel m (ext ++ w) k1 k2.
+Proof. intros H ext'. rewrite app_assoc. apply H. Qed.
 
 Lemma cfg_plain m x ps1 y : cfg m x ps1 y -> cfg MPlain x None y.
 Proof. intros [H _]. split; [exact H|reflexivity]. Qed.
 
-Lemma RR_same (r : (unit + exn)) s1 s2 : R s1 s2 -> RR (r, s1) (r, s2).
-Proof. intros H. right. right. split; [reflexivity|exact H]. Qed.
-
-Lemma RR_bind (m1 m2 : M unit) (f1 f2 : M unit) s1 s2 :
-  RR (m1 s1) (m2 s2) -> (forall s1' s2', R s1' s2' -> RR (f1 s1') (f2 s2')) ->
-  RR ((m1 ;; f1) s1) ((m2 ;; f2) s2).
+(* -- the state relation -- *)
+Lemma SR_bump w s1 s2 : SR root w s1 s2 -> SR root w (bump s1) s2.
 Proof.
-  intros H Hf. unfold bind. unfold RR, declined in *.
-  destruct (m1 s1) as [[[]|x1] t1], (m2 s2) as [[[]|x2] t2]; cbn [fst snd] in *.
-  - destruct H as [[]|[[]|[_ H]]]. apply Hf. exact H.
-  - destruct H as [[]|[H|[H _]]]; [|discriminate]. right. left. exact H.
-  - destruct H as [H|[[]|[H _]]]; [|discriminate]. left. exact H.
-  - exact H.
+  intros [H (A & B & C & D & E)]. split; [exact H|]. repeat split; try assumption.
+  cbn. eapply desc_weaken; [|exact D]. lia.
+Qed.
+Lemma SR_rs w s1 s2 : SR root w s1 s2 -> repsens s1 = repsens s2.
+Proof. intros [H _]. apply H. Qed.
+Lemma SR_steps w s1 s2 : SR root w s1 s2 -> steps s1 = steps s2.
+Proof. intros [H _]. apply H. Qed.
+Lemma SR_dec w s1 s2 : SR root w s1 s2 -> SR root w (dec_steps s1) (dec_steps s2).
+Proof.
+  intros [(H1 & H2 & H3 & H4 & H5 & H6) HC]. split; [|exact HC].
+  repeat split; cbn; try assumption. rewrite H5. reflexivity.
 Qed.
 
-Lemma RR_tick (f1 f2 : M unit) s1 s2 : R s1 s2 ->
-  (forall s1' s2', R s1' s2' -> RR (f1 s1') (f2 s2')) -> RR ((tick ;; f1) s1) ((tick ;; f2) s2).
+Lemma SR_push w lab s1 s2 i1 i2 : SR root w s1 s2 -> fst i1 = fst i2 ->
+  SR root (mkfr lab (nextid s1) (nextid s2) :: w) (push_cell s1 i1) (push_cell s2 i2).
+Proof.
+  intros [H (A & B & C & D & E)] Hi. split; [exact H|]. unfold cells_rel, push_cell. cbn.
+  rewrite A, B. repeat split; try reflexivity; try assumption; try lia. constructor; [exact Hi|exact C].
+Qed.
+
+Lemma SR_pop w fr sc1 sc2 t1 t2 : SR root (fr :: w) t1 t2 ->
+  SR root w (restore_cell sc1 (f1 fr) (f1 fr) t1) (restore_cell sc2 (f2 fr) (f2 fr) t2).
+Proof.
+  intros [H (A & B & C & D & E)]. split; [exact H|]. unfold cells_rel, restore_cell. cbn.
+  destruct (cells t1) as [|[c1 u1] r1]; [discriminate A|]. destruct (cells t2) as [|[c2 u2] r2]; [discriminate B|].
+  cbn in A, B, D, E. injection A as -> A. injection B as -> B. cbn [cell_remove]. rewrite !N.eqb_refl.
+  inversion C; subst. destruct D as [D1 D2], E as [E1 E2]. repeat split; try assumption.
+  - destruct sc1; [exact D2|]. eapply desc_weaken; [|exact D2]. lia.
+  - destruct sc2; [exact E2|]. eapply desc_weaken; [|exact E2]. lia.
+Qed.
+
+Lemma SR_head w fr t1 t2 : SR root (fr :: w) t1 t2 ->
+  exists u1 u2, cell_lookup (cells t1) (f1 fr) = Some u1 /\ cell_lookup (cells t2) (f2 fr) = Some u2 /\ fst u1 = fst u2.
+Proof. intros [_ (A & B & C & D & E)]. exact (cells_get [] fr w _ _ _ _ A B C D E). Qed.
+
+Lemma SR_get ext fr w t1 t2 : SR root (ext ++ fr :: w) t1 t2 ->
+  exists u1 u2, cell_lookup (cells t1) (f1 fr) = Some u1 /\ cell_lookup (cells t2) (f2 fr) = Some u2 /\ fst u1 = fst u2.
+Proof. intros [_ (A & B & C & D & E)]. exact (cells_get ext fr w _ _ _ _ A B C D E). Qed.
+
+Lemma SR_set ext fr w t1 t2 v1 v2 : SR root (ext ++ fr :: w) t1 t2 -> fst v1 = fst v2 ->
+  SR root (ext ++ fr :: w) (set_cells t1 (cell_update (cells t1) (f1 fr) v1)) (set_cells t2 (cell_update (cells t2) (f2 fr) v2)).
+Proof.
+  intros [H (A & B & C & D & E)] Hv. split; [exact H|].
+  destruct (cells_upd ext fr w _ _ _ _ v1 v2 A B C D E Hv) as (X & Y & Z).
+  unfold cells_rel, set_cells. cbn. rewrite X, Y. repeat split; assumption.
+Qed.
+
+(* -- the result relation -- *)
+Lemma RR_ret w s1 s2 : SR root w s1 s2 -> RR w (inl tt, s1) (inl tt, s2).
+Proof. intros H. right. right. split; [exact I|exact H]. Qed.
+
+Lemma RR_mono_exn w x s1 s2 : (forall l, x <> XBreak l) -> SR root w s1 s2 -> RR w (inr x, s1) (inr x, s2).
+Proof. intros Hx H. right. right. split; [|exact H]. destruct x; cbn; try reflexivity. exfalso. eapply Hx. reflexivity. Qed.
+
+Lemma RR_bind w (m1 m2 : M unit) (f1 f2 : M unit) s1 s2 :
+  RR w (m1 s1) (m2 s2) -> (forall t1 t2, SR root w t1 t2 -> RR w (f1 t1) (f2 t2)) ->
+  RR w ((m1 ;; f1) s1) ((m2 ;; f2) s2).
+Proof.
+  intros [H|[H|[H H']]] Hf; unfold bind.
+  - unfold declined in H. destruct (m1 s1) as [[[]|x1] t1]; cbn [fst] in H; try contradiction. left. exact H.
+  - unfold declined in H. destruct (m2 s2) as [[[]|x2] t2]; cbn [fst] in H; try contradiction. right. left. exact H.
+  - destruct (m1 s1) as [[[]|x1] t1], (m2 s2) as [[[]|x2] t2]; cbn [fst snd rrel] in H, H'; try contradiction.
+    + apply Hf. exact H'.
+    + right. right. split; assumption.
+Qed.
+
+Lemma RR_tick w (f1 f2 : M unit) s1 s2 : SR root w s1 s2 ->
+  (forall t1 t2, SR root w t1 t2 -> RR w (f1 t1) (f2 t2)) -> RR w ((tick ;; f1) s1) ((tick ;; f2) s2).
 Proof.
   intros H Hf. unfold bind.
   assert (T : forall s, (steps s <> 0)%N -> tick s = (inl tt, dec_steps s)).
   { intros s Hs. unfold tick, dec_steps. destruct (steps s); [congruence|reflexivity]. }
-  pose proof (R_steps _ _ H) as E.
+  pose proof (SR_steps _ _ _ H) as E.
   destruct (N.eq_dec (steps s1) 0) as [Z|NZ].
   - left. unfold declined, tick. rewrite Z. exact I.
-  - rewrite (T s1 NZ), (T s2) by (rewrite <- E; exact NZ). apply Hf. apply R_dec. exact H.
+  - rewrite (T s1 NZ), (T s2) by (rewrite <- E; exact NZ). apply Hf. apply SR_dec. exact H.
 Qed.
 
-Lemma RR_down (m1 m2 : M unit) s1 s2 : RR (m1 s1) (m2 s2) -> RR (down m1 s1) (down m2 s2).
+Ltac rr_fin H' :=
+  first [ left; exact I | right; left; exact I
+        | right; right; split; [cbn [fst rrel xrel]; first [exact I | reflexivity | assumption]|exact H'] ].
+
+Lemma RR_down w (m1 m2 : M unit) s1 s2 : RR w (m1 s1) (m2 s2) -> RR w (down m1 s1) (down m2 s2).
 Proof.
   unfold down. intros [H|[H|[H H']]].
   - unfold declined in H. destruct (m1 s1) as [[[]|x1] t1]; cbn [fst] in H; try contradiction.
     destruct x1; try contradiction; left; exact I.
   - unfold declined in H. destruct (m2 s2) as [[[]|x2] t2]; cbn [fst] in H; try contradiction.
     destruct x2; try contradiction; right; left; exact I.
-  - destruct (m1 s1) as [r1 t1], (m2 s2) as [r2 t2]; cbn [fst snd] in H, H'. subst r2.
-    destruct r1 as [[]|x]; [apply RR_same; exact H'|]. destruct x; apply RR_same; exact H'.
+  - destruct (m1 s1) as [[[]|x1] t1], (m2 s2) as [[[]|x2] t2]; cbn [fst snd rrel] in H, H'; try contradiction.
+    + apply RR_ret. exact H'.
+    + destruct x1, x2; cbn [xrel] in H; try contradiction; try discriminate H;
+        try (injection H as -> -> ->); try (injection H as -> ->); try (injection H as ->); rr_fin H'.
 Qed.
 
-Lemma RR_try (m1 m2 : M unit) (h1 h2 : option jv -> M unit) s1 s2 :
-  RR (m1 s1) (m2 s2) -> (forall val t1 t2, R t1 t2 -> RR (h1 val t1) (h2 val t2)) ->
-  RR (try_catch m1 h1 s1) (try_catch m2 h2 s2).
+Lemma RR_try w (m1 m2 : M unit) (h1 h2 : option jv -> M unit) s1 s2 :
+  RR w (m1 s1) (m2 s2) -> (forall val t1 t2, SR root w t1 t2 -> RR w (h1 val t1) (h2 val t2)) ->
+  RR w (try_catch m1 h1 s1) (try_catch m2 h2 s2).
 Proof.
   unfold try_catch. intros [H|[H|[H H']]] Hh.
   - unfold declined in H. destruct (m1 s1) as [[[]|x1] t1]; cbn [fst] in H; try contradiction.
     destruct x1; try contradiction; left; exact I.
   - unfold declined in H. destruct (m2 s2) as [[[]|x2] t2]; cbn [fst] in H; try contradiction.
     destruct x2; try contradiction; right; left; exact I.
-  - destruct (m1 s1) as [r1 t1], (m2 s2) as [r2 t2]; cbn [fst snd] in H, H'. subst r2.
-    destruct r1 as [[]|x]; [apply RR_same; exact H'|].
-    destruct x as [[|d] c val| | | | |]; try (apply RR_same; exact H'). apply Hh. exact H'.
+  - destruct (m1 s1) as [[[]|x1] t1], (m2 s2) as [[[]|x2] t2]; cbn [fst snd rrel] in H, H'; try contradiction.
+    + apply RR_ret. exact H'.
+    + destruct x1, x2; cbn [xrel] in H; try contradiction; try discriminate H;
+        try (injection H as -> -> ->); try (injection H as -> ->); try (injection H as ->); try (rr_fin H').
+      destruct depth0; [apply Hh; exact H'|rr_fin H'].
 Qed.
 
 Lemma check_linked x pp c s : linked x pp -> check_intact x pp c s = (inl tt, s).
@@ -312,25 +463,25 @@ Proof.
   intros [H _]. unfold check_intact, intact. rewrite H. rewrite N.eqb_refl. reflexivity.
 Qed.
 
-Lemma raise_err_rel c val s1 s2 : R s1 s2 -> RR (raise_err c val s1) (raise_err c val s2).
-Proof. intros H. unfold raise_err. rewrite (R_rs _ _ H). apply RR_same. exact H. Qed.
+Lemma raise_err_rel w c val s1 s2 : SR root w s1 s2 -> RR w (raise_err c val s1) (raise_err c val s2).
+Proof. intros H. unfold raise_err. rewrite (SR_rs _ _ _ H). apply RR_mono_exn; [discriminate|exact H]. Qed.
 
-Lemma lift_rel (r : nres) (k1 k2 : jv -> M unit) s1 s2 : R s1 s2 ->
-  (forall w, r = NOk w -> RR (k1 w s1) (k2 w s2)) -> RR (lift r k1 s1) (lift r k2 s2).
+Lemma lift_rel w (r : nres) (k1 k2 : jv -> M unit) s1 s2 : SR root w s1 s2 ->
+  (forall u, r = NOk u -> RR w (k1 u s1) (k2 u s2)) -> RR w (lift r k1 s1) (lift r k2 s2).
 Proof.
-  intros H Hk. destruct r as [w|c val|why]; cbn [lift].
+  intros H Hk. destruct r as [u|c val|why]; cbn [lift].
   - apply Hk. reflexivity.
   - apply raise_err_rel. exact H.
   - left. exact I.
 Qed.
 
-Lemma nav_rel m x ps1 y key w k1 k2 s1 s2 :
-  cfg m x ps1 y -> krel m k1 k2 -> R s1 s2 -> fn_index2 (fst x) key = NOk w ->
-  RR (nav ps1 x key w k1 s1) (nav None y key w k2 s2).
+Lemma nav_rel m w x ps1 y key u k1 k2 s1 s2 :
+  cfg m x ps1 y -> klocal m w k1 k2 -> SR root w s1 s2 -> fn_index2 (fst x) key = NOk u ->
+  RR w (nav ps1 x key u k1 s1) (nav None y key u k2 s2).
 Proof.
   intros [Hy Hc] Hk HR Hi. destruct m.
   - destruct Hc as [pp [-> HL]]. cbn [nav]. unfold bind. rewrite (check_linked _ _ _ _ HL). unfold fresh. cbn [fst snd].
-    apply (Hk (w, Some (nextid s1)) (Some (mkp (key :: rpath pp) w (nextid s1))) (plain w)); [|apply R_bump; exact HR].
+    apply (Hk (u, Some (nextid s1)) (Some (mkp (key :: rpath pp) u (nextid s1))) (plain u)); [|apply SR_bump; exact HR].
     split; [reflexivity|]. eexists. split; [reflexivity|].
     destruct HL as [_ [H2 [H3 H4]]]. repeat split; cbn [fst snd lid lv rpath rev].
     + rewrite (nav_path_snoc _ _ _ key H3). rewrite <- H2. exact Hi.
@@ -338,25 +489,25 @@ Proof.
   - subst ps1. cbn [nav]. apply Hk; [|exact HR]. split; reflexivity.
 Qed.
 
-Lemma index_rel m x ps1 y key k1 k2 s1 s2 :
-  cfg m x ps1 y -> krel m k1 k2 -> R s1 s2 ->
-  RR (lift (fn_index2 (fst x) key) (fun w => nav ps1 x key w k1) s1)
-     (lift (fn_index2 (fst y) key) (fun w => nav None y key w k2) s2).
+Lemma index_rel m w x ps1 y key k1 k2 s1 s2 :
+  cfg m x ps1 y -> klocal m w k1 k2 -> SR root w s1 s2 ->
+  RR w (lift (fn_index2 (fst x) key) (fun u => nav ps1 x key u k1) s1)
+       (lift (fn_index2 (fst y) key) (fun u => nav None y key u k2) s2).
 Proof.
-  intros Hc Hk HR. rewrite (proj1 Hc). apply lift_rel; [exact HR|]. intros w Hw. eapply nav_rel; eassumption.
+  intros Hc Hk HR. rewrite (proj1 Hc). apply lift_rel; [exact HR|]. intros u Hu. eapply nav_rel; eassumption.
 Qed.
 
 (* .[] *)
-Lemma iterate_rel m x ps1 y k1 k2 s1 s2 :
-  cfg m x ps1 y -> krel m k1 k2 -> R s1 s2 ->
-  RR (iterate x ps1 k1 s1) (iterate y None k2 s2).
+Lemma iterate_rel m w x ps1 y k1 k2 s1 s2 :
+  cfg m x ps1 y -> klocal m w k1 k2 -> SR root w s1 s2 ->
+  RR w (iterate x ps1 k1 s1) (iterate y None k2 s2).
 Proof.
   intros [Hy Hc] Hk HR. destruct m.
   - destruct Hc as [pp [-> HL]]. unfold iterate. rewrite Hy.
     assert (Hel : forall elems : list (jv * jv),
       (forall key e, In (key, e) elems -> fn_index2 (lv pp) key = NOk e /\ jv_wf e) ->
-      forall s1 s2, R s1 s2 ->
-      RR ((fix go (l : list (jv * jv)) : M unit :=
+      forall s1 s2, SR root w s1 s2 ->
+      RR w ((fix go (l : list (jv * jv)) : M unit :=
              match l with
              | [] => ret tt
              | (key, e) :: r => (id <- fresh ;; k1 (e, Some id) (Some (mkp (key :: rpath pp) e id))) ;; go r
@@ -367,10 +518,10 @@ Proof.
              | (key, e) :: r => k2 (plain e) None ;; go r
              end) elems s2)).
     { induction elems as [|[key e] r IH]; intros Hin t1 t2 Ht.
-      - apply RR_same. exact Ht.
+      - apply RR_ret. exact Ht.
       - apply RR_bind.
         + unfold bind, fresh. cbn [fst snd].
-          apply (Hk (e, Some (nextid t1)) (Some (mkp (key :: rpath pp) e (nextid t1))) (plain e)); [|apply R_bump; exact Ht].
+          apply (Hk (e, Some (nextid t1)) (Some (mkp (key :: rpath pp) e (nextid t1))) (plain e)); [|apply SR_bump; exact Ht].
           split; [reflexivity|]. eexists. split; [reflexivity|].
           destruct HL as [_ [H2 [H3 H4]]]. destruct (Hin key e (or_introl eq_refl)) as [Hi He].
           repeat split; cbn [fst snd lid lv rpath rev]; [|exact He].
@@ -383,8 +534,8 @@ Proof.
     + unfold bind. rewrite (check_linked x pp _ _ (conj H1 (conj (eq_trans Ex H2) (conj H3 H4)))) by idtac.
       apply Hel; [|exact HR]. rewrite <- H2. intros key e Hin. apply obj_elems; [rewrite H2; exact H4|exact Hin].
   - subst ps1. unfold iterate. rewrite Hy.
-    assert (Hel : forall elems : list (jv * jv), forall s1 s2, R s1 s2 ->
-      RR ((fix go (l : list (jv * jv)) : M unit :=
+    assert (Hel : forall elems : list (jv * jv), forall s1 s2, SR root w s1 s2 ->
+      RR w ((fix go (l : list (jv * jv)) : M unit :=
              match l with
              | [] => ret tt
              | (key, e) :: r => k1 (plain e) None ;; go r
@@ -395,17 +546,77 @@ Proof.
              | (key, e) :: r => k2 (plain e) None ;; go r
              end) elems s2)).
     { induction elems as [|[key e] r IH]; intros t1 t2 Ht.
-      - apply RR_same. exact Ht.
+      - apply RR_ret. exact Ht.
       - apply RR_bind; [|exact IH]. apply Hk; [|exact Ht]. split; reflexivity. }
     destruct (fst x) as [|?|?|?|l|kvs]; try (apply raise_err_rel; exact HR); apply Hel; exact HR.
 Qed.
 
+(* -- frames: a cell / a label alive while the consumer runs -- *)
+Lemma xrel_pop_cell fr w x1 x2 : f_lab fr = false -> xrel (fr :: w) x1 x2 -> xrel w x1 x2.
+Proof.
+  intros Hf. destruct x1, x2; cbn; auto. intros [fr' [[<-|Hin] [Hl Hr]]]; [congruence|]. exists fr'. exact (conj Hin (conj Hl Hr)).
+Qed.
+
+(* [with_cell]: the body runs one frame deeper and must end with an exception that makes sense without the frame *)
+Lemma with_cell_rel w lab sc1 sc2 i1 i2 (body1 body2 : N -> M unit) (after1 after2 : tv -> M unit) s1 s2 :
+  SR root w s1 s2 -> fst i1 = fst i2 ->
+  (forall t1 t2, SR root (mkfr lab (nextid s1) (nextid s2) :: w) t1 t2 ->
+     declined (body1 (nextid s1) t1) \/ declined (body2 (nextid s2) t2) \/
+     (rrel w (fst (body1 (nextid s1) t1)) (fst (body2 (nextid s2) t2)) /\
+      SR root (mkfr lab (nextid s1) (nextid s2) :: w) (snd (body1 (nextid s1) t1)) (snd (body2 (nextid s2) t2)))) ->
+  (forall v1 v2 t1 t2, fst v1 = fst v2 -> SR root w t1 t2 -> RR w (after1 v1 t1) (after2 v2 t2)) ->
+  RR w (with_cell sc1 i1 body1 after1 s1) (with_cell sc2 i2 body2 after2 s2).
+Proof.
+  intros HR Hi Hb Ha. rewrite !with_cell_eq.
+  specialize (Hb _ _ (SR_push w lab s1 s2 i1 i2 HR Hi)).
+  set (fr := mkfr lab (nextid s1) (nextid s2)) in *.
+  destruct Hb as [H|[H|[H H']]].
+  - unfold declined in H. destruct (body1 _ _) as [[[]|x1] t1]; cbn [fst] in H; try contradiction. left. exact H.
+  - unfold declined in H. destruct (body2 _ _) as [[[]|x2] t2]; cbn [fst] in H; try contradiction. right. left. exact H.
+  - destruct (body1 _ _) as [[[]|x1] t1], (body2 _ _) as [[[]|x2] t2]; cbn [fst snd rrel] in H, H'; try contradiction.
+    + destruct (SR_head _ _ _ _ H') as (u1 & u2 & L1 & L2 & Hu). cbn [f1 f2 fr] in L1, L2. rewrite L1, L2.
+      apply Ha; [exact Hu|]. exact (SR_pop w fr sc1 sc2 _ _ H').
+    + right. right. split; [exact H|]. exact (SR_pop w fr sc1 sc2 _ _ H').
+Qed.
+
+Lemma set_cell_rel ext fr w v1 v2 s1 s2 : SR root (ext ++ fr :: w) s1 s2 -> fst v1 = fst v2 ->
+  RR (ext ++ fr :: w) (set_cell (f1 fr) v1 s1) (set_cell (f2 fr) v2 s2).
+Proof. intros H Hv. unfold set_cell. apply RR_ret. apply SR_set; assumption. Qed.
+
+(* catch_break at the label frame on top: a break to it ends the body normally in both runs, any other
+   break passes in both *)
+Lemma catch_break_rel w l1 l2 (m1 m2 : M unit) t1 t2 :
+  SR root (mkfr true l1 l2 :: w) t1 t2 -> RR (mkfr true l1 l2 :: w) (m1 t1) (m2 t2) ->
+  declined (catch_break l1 m1 t1) \/ declined (catch_break l2 m2 t2) \/
+  (rrel w (fst (catch_break l1 m1 t1)) (fst (catch_break l2 m2 t2)) /\
+   SR root (mkfr true l1 l2 :: w) (snd (catch_break l1 m1 t1)) (snd (catch_break l2 m2 t2))).
+Proof.
+  intros _ [H|[H|[H H']]]; unfold catch_break.
+  - unfold declined in H. destruct (m1 t1) as [[[]|x1] u1]; cbn [fst] in H; try contradiction.
+    destruct x1; try contradiction; left; exact I.
+  - unfold declined in H. destruct (m2 t2) as [[[]|x2] u2]; cbn [fst] in H; try contradiction.
+    destruct x2; try contradiction; right; left; exact I.
+  - destruct (m1 t1) as [[[]|x1] u1], (m2 t2) as [[[]|x2] u2]; cbn [fst snd rrel] in H, H'; try contradiction.
+    + right. right. split; [exact I|exact H'].
+    + destruct x1, x2; cbn [xrel] in H; try contradiction; try discriminate H;
+        try (right; right; split; [exact H|exact H']).
+      destruct H as [fr' [[<-|Hin] (Hl & <- & <-)]].
+      * cbn [f1 f2]. rewrite !N.eqb_refl. right. right. split; [exact I|exact H'].
+      * pose proof H' as [HT (A & B & C & D & E)]. cbn [map f1 f2] in D, E. destruct D as [_ D], E as [_ E].
+        assert (L1 : (f1 fr' < l1)%N) by (eapply desc_in; [exact D|apply in_map; exact Hin]).
+        assert (L2 : (f2 fr' < l2)%N) by (eapply desc_in; [exact E|apply in_map; exact Hin]).
+        replace (f1 fr' =? l1)%N with false by (symmetry; apply N.eqb_neq; lia).
+        replace (f2 fr' =? l2)%N with false by (symmetry; apply N.eqb_neq; lia).
+        right. right. split; [|exact H'].
+        cbn [fst rrel xrel]. exists fr'. repeat split; assumption.
+Qed.
+
 (* environments of variables and labels hold no function; they agree on variables up to ids *)
-Lemma env_rel_fun rho1 rho2 name ar : env_rel rho1 rho2 ->
+Lemma env_rel_fun w rho1 rho2 name ar : env_rel w rho1 rho2 ->
   lookup_fun rho1 name ar = None /\ lookup_fun rho2 name ar = None.
 Proof. induction 1; cbn [lookup_fun]; auto. Qed.
 
-Lemma env_rel_var rho1 rho2 name : env_rel rho1 rho2 ->
+Lemma env_rel_var w rho1 rho2 name : env_rel w rho1 rho2 ->
   match lookup_var rho1 name, lookup_var rho2 name with
   | Some a, Some b => fst b = fst a
   | None, None => True
@@ -415,10 +626,20 @@ Proof.
   induction 1; cbn [lookup_var]; auto. destruct (list_N_eqb n name); [symmetry; assumption|assumption].
 Qed.
 
+Lemma env_rel_label w rho1 rho2 name : env_rel w rho1 rho2 ->
+  match lookup_label rho1 name, lookup_label rho2 name with
+  | Some a, Some b => lab_in w a b
+  | None, None => True
+  | _, _ => False
+  end.
+Proof.
+  induction 1; cbn [lookup_label]; auto. destruct (list_N_eqb n name); assumption.
+Qed.
+
 Definition sim (m : mode) (p : pq) : Prop :=
-  forall n rho1 rho2 x ps1 y k1 k2 s1 s2,
-    env_rel rho1 rho2 -> cfg m x ps1 y -> krel m k1 k2 -> R s1 s2 ->
-    RR (eval_q bs n rho1 (emb p) x ps1 k1 s1) (eval_q bs n rho2 (emb p) y None k2 s2).
+  forall n w rho1 rho2 x ps1 y k1 k2 s1 s2,
+    env_rel w rho1 rho2 -> cfg m x ps1 y -> krel m w k1 k2 -> SR root w s1 s2 ->
+    RR w (eval_q bs n rho1 (emb p) x ps1 k1 s1) (eval_q bs n rho2 (emb p) y None k2 s2).
 
 Ltac fuel n := destruct n as [|n]; [left; exact I|].
 Ltac fold_eval :=
@@ -428,39 +649,43 @@ Ltac fold_eval :=
          | |- context [ev_q (evals_n bs ?m)] => change (ev_q (evals_n bs m)) with (eval_q bs m)
          end.
 Ltac red_eval := cbn [evals_n step ev_q step_eval_q push_defs fold_left ev_t step_eval_t rev app ev_index ev_call].
+(* a continuation built from k, used at an extension of the current world *)
+Ltac kext := let ext := fresh "ext" in let z := fresh "z" in let ps' := fresh "ps'" in let z' := fresh "z'" in
+             let Hz := fresh "Hz" in let t1 := fresh "t1" in let t2 := fresh "t2" in let Ht := fresh "Ht" in
+             intros ext z ps' z' Hz t1 t2 Ht.
 
 Lemma sim_id m : sim m PId.
 Proof.
-  intros n rho1 rho2 x ps1 y k1 k2 s1 s2 He Hc Hk HR. fuel n. fuel n.
-  apply Hk; assumption.
+  intros n w rho1 rho2 x ps1 y k1 k2 s1 s2 He Hc Hk HR. fuel n. fuel n.
+  apply (krel_local _ _ _ _ Hk); assumption.
 Qed.
 
 Lemma sim_idx m i : index_key i <> None -> sim m (PIdx i).
 Proof.
-  intros Hi n rho1 rho2 x ps1 y k1 k2 s1 s2 He Hc Hk HR.
+  intros Hi n w rho1 rho2 x ps1 y k1 k2 s1 s2 He Hc Hk HR.
   destruct (index_key i) as [key|] eqn:Ek; [|congruence].
   cbn [emb]. unfold eval_q, q_term. fuel n. red_eval. fuel n. red_eval. fuel n. red_eval.
   unfold step_eval_index. rewrite Ek. fuel n. red_eval.
-  eapply index_rel; eassumption.
+  eapply index_rel; try eassumption. apply krel_local. exact Hk.
 Qed.
 
 Lemma sim_iter m : sim m PIter.
 Proof.
-  intros n rho1 rho2 x ps1 y k1 k2 s1 s2 He Hc Hk HR. do 3 fuel n.
+  intros n w rho1 rho2 x ps1 y k1 k2 s1 s2 He Hc Hk HR. do 3 fuel n.
   cbn [emb]. unfold eval_q. red_eval.
-  eapply iterate_rel; eassumption.
+  eapply iterate_rel; try eassumption. apply krel_local. exact Hk.
 Qed.
 
 Lemma sim_pipe m a b : sim m a -> sim m b -> sim m (PPipe a b).
 Proof.
-  intros Ha Hb n rho1 rho2 x ps1 y k1 k2 s1 s2 He Hc Hk HR. fuel n.
+  intros Ha Hb n w rho1 rho2 x ps1 y k1 k2 s1 s2 He Hc Hk HR. fuel n.
   cbn [emb]. rewrite !pipe_law. apply Ha; try assumption.
-  intros x' ps' y' Hc' t1 t2 Ht. apply Hb; assumption.
+  kext. apply Hb; try assumption; [apply env_rel_mono; exact He|apply krel_mono; exact Hk].
 Qed.
 
 Lemma sim_comma m a b : sim m a -> sim m b -> sim m (PComma a b).
 Proof.
-  intros Ha Hb n rho1 rho2 x ps1 y k1 k2 s1 s2 He Hc Hk HR. fuel n.
+  intros Ha Hb n w rho1 rho2 x ps1 y k1 k2 s1 s2 He Hc Hk HR. fuel n.
   cbn [emb]. rewrite !comma_law. apply RR_bind.
   - apply Ha; assumption.
   - intros t1 t2 Ht. apply Hb; assumption.
@@ -468,21 +693,21 @@ Qed.
 
 Lemma sim_empty m : sim m PEmpty.
 Proof.
-  intros n rho1 rho2 x ps1 y k1 k2 s1 s2 He Hc Hk HR. do 3 fuel n.
+  intros n w rho1 rho2 x ps1 y k1 k2 s1 s2 He Hc Hk HR. do 3 fuel n.
   cbn [emb]. unfold eval_q, q_call, q_term. red_eval.
   unfold step_call. cbn [List.length].
   replace (is_var_name (codes "empty") && Nat.eqb 0 0) with false by reflexivity.
-  destruct (env_rel_fun _ _ (codes "empty") O He) as [-> ->]. rewrite Hempty.
-  apply RR_same. exact HR.
+  destruct (env_rel_fun _ _ _ (codes "empty") O He) as [-> ->]. rewrite Hempty.
+  apply RR_ret. exact HR.
 Qed.
 
 Lemma sim_error m : sim m PError.
 Proof.
-  intros n rho1 rho2 x ps1 y k1 k2 s1 s2 He Hc Hk HR. do 3 fuel n.
+  intros n w rho1 rho2 x ps1 y k1 k2 s1 s2 He Hc Hk HR. do 3 fuel n.
   cbn [emb]. unfold eval_q, q_call, q_term. red_eval.
   unfold step_call. cbn [List.length].
   replace (is_var_name (codes "error") && Nat.eqb 0 0) with false by reflexivity.
-  destruct (env_rel_fun _ _ (codes "error") O He) as [-> ->]. rewrite Herror.
+  destruct (env_rel_fun _ _ _ (codes "error") O He) as [-> ->]. rewrite Herror.
   unfold guard_repsens. replace (is_formatter (codes "error")) with false by reflexivity.
   replace (list_N_eqb (codes "error") nm_21) with false by reflexivity.
   replace (list_N_eqb (codes "error") nm_27) with false by reflexivity.
@@ -495,44 +720,48 @@ Proof.
 Qed.
 
 (* the branches of an if, after the condition *)
-Lemma sim_if_gen m c (a1 a2 b1 b2 : M unit) n rho1 rho2 x ps1 y s1 s2 :
-  sim MPlain c -> env_rel rho1 rho2 -> cfg m x ps1 y -> R s1 s2 ->
-  (forall t1 t2, R t1 t2 -> RR (a1 t1) (a2 t2)) -> (forall t1 t2, R t1 t2 -> RR (b1 t1) (b2 t2)) ->
-  RR (eval_q bs n rho1 (emb c) x None (fun z _ => if truthy (fst z) then a1 else b1) s1)
-     (eval_q bs n rho2 (emb c) y None (fun z _ => if truthy (fst z) then a2 else b2) s2).
+Lemma sim_if_gen m c (a1 a2 b1 b2 : M unit) n w rho1 rho2 x ps1 y s1 s2 :
+  sim MPlain c -> env_rel w rho1 rho2 -> cfg m x ps1 y -> SR root w s1 s2 ->
+  (forall ext t1 t2, SR root (ext ++ w) t1 t2 -> RR (ext ++ w) (a1 t1) (a2 t2)) ->
+  (forall ext t1 t2, SR root (ext ++ w) t1 t2 -> RR (ext ++ w) (b1 t1) (b2 t2)) ->
+  RR w (eval_q bs n rho1 (emb c) x None (fun z _ => if truthy (fst z) then a1 else b1) s1)
+       (eval_q bs n rho2 (emb c) y None (fun z _ => if truthy (fst z) then a2 else b2) s2).
 Proof.
   intros Hsc He Hc HR Ha Hb. apply Hsc; try assumption; [eapply cfg_plain; exact Hc|].
-  intros z ps' z' [Hz _] t1 t2 Ht. rewrite Hz. destruct (truthy (fst z)); [apply Ha|apply Hb]; exact Ht.
+  intros ext z ps' z' [Hz _] t1 t2 Ht. rewrite Hz. destruct (truthy (fst z)); [apply Ha|apply Hb]; exact Ht.
 Qed.
 
 Lemma sim_if m c a b : sim MPlain c -> sim m a -> sim m b -> sim m (PIf c a b).
 Proof.
-  intros Hsc Ha Hb n rho1 rho2 x ps1 y k1 k2 s1 s2 He Hc Hk HR. do 2 fuel n.
+  intros Hsc Ha Hb n w rho1 rho2 x ps1 y k1 k2 s1 s2 He Hc Hk HR. do 2 fuel n.
   cbn [emb]. unfold eval_q, q_term. red_eval. cbn [if_chain].
-  apply (sim_if_gen m c _ _ _ _ n rho1 rho2 x ps1 y s1 s2); try assumption; intros t1 t2 Ht; [apply Ha|apply Hb]; assumption.
+  apply (sim_if_gen m c _ _ _ _ n w rho1 rho2 x ps1 y s1 s2); try assumption; intros ext t1 t2 Ht;
+    [apply Ha|apply Hb]; try assumption; try (apply env_rel_mono; exact He); apply krel_mono; exact Hk.
 Qed.
 
 Lemma sim_ifne m c a : sim MPlain c -> sim m a -> sim m (PIfNoElse c a).
 Proof.
-  intros Hsc Ha n rho1 rho2 x ps1 y k1 k2 s1 s2 He Hc Hk HR. do 2 fuel n.
+  intros Hsc Ha n w rho1 rho2 x ps1 y k1 k2 s1 s2 He Hc Hk HR. do 2 fuel n.
   cbn [emb]. unfold eval_q, q_term. red_eval. cbn [if_chain].
-  apply (sim_if_gen m c _ _ _ _ n rho1 rho2 x ps1 y s1 s2); try assumption; intros t1 t2 Ht; [apply Ha|apply Hk]; assumption.
+  apply (sim_if_gen m c _ _ _ _ n w rho1 rho2 x ps1 y s1 s2); try assumption; intros ext t1 t2 Ht.
+  - apply Ha; try assumption; [apply env_rel_mono; exact He|apply krel_mono; exact Hk].
+  - apply Hk; assumption.
 Qed.
 
 Lemma sim_try m p : sim m p -> sim m (PTry p).
 Proof.
-  intros Hp n rho1 rho2 x ps1 y k1 k2 s1 s2 He Hc Hk HR. do 2 fuel n.
+  intros Hp n w rho1 rho2 x ps1 y k1 k2 s1 s2 He Hc Hk HR. do 2 fuel n.
   cbn [emb]. unfold eval_q, q_term. red_eval.
   apply RR_try.
-  - apply Hp; try assumption. intros z ps' z' Hz t1 t2 Ht. apply RR_down. apply Hk; assumption.
-  - intros val t1 t2 Ht. apply RR_same. exact Ht.
+  - apply Hp; try assumption. kext. apply RR_down. apply Hk; assumption.
+  - intros val t1 t2 Ht. apply RR_ret. exact Ht.
 Qed.
 
 Lemma sim_lit t : is_lit t = true -> sim MPlain (PLit t).
 Proof.
-  intros Ht n rho1 rho2 x ps1 y k1 k2 s1 s2 He Hc Hk HR. do 2 fuel n.
-  assert (Hp : forall w, RR (k1 (plain w) ps1 s1) (k2 (plain w) None s2)).
-  { intros w. apply Hk; [|exact HR]. split; [reflexivity|apply Hc]. }
+  intros Ht n w rho1 rho2 x ps1 y k1 k2 s1 s2 He Hc Hk HR. do 2 fuel n.
+  assert (Hp : forall u, RR w (k1 (plain u) ps1 s1) (k2 (plain u) None s2)).
+  { intros u. apply (krel_local _ _ _ _ Hk); [|exact HR]. split; [reflexivity|apply Hc]. }
   cbn [emb]. unfold eval_q, q_term. red_eval.
   destruct t; try discriminate Ht; try apply Hp.
   destruct s as [str [qs|]]; [discriminate Ht|]. fuel n. cbn [ev_string evals_n step step_eval_string]. apply Hp.
@@ -540,107 +769,114 @@ Qed.
 
 Lemma sim_var x0 : is_var_name x0 = true -> sim MPlain (PVar x0).
 Proof.
-  intros Hx n rho1 rho2 x ps1 y k1 k2 s1 s2 He Hc Hk HR. do 3 fuel n.
+  intros Hx n w rho1 rho2 x ps1 y k1 k2 s1 s2 He Hc Hk HR. do 3 fuel n.
   cbn [emb]. unfold eval_q, q_call, q_term. red_eval.
   unfold step_call. cbn [List.length]. rewrite Hx. cbn [andb Nat.eqb].
-  pose proof (env_rel_var _ _ x0 He) as Hv.
+  pose proof (env_rel_var _ _ _ x0 He) as Hv.
   destruct (lookup_var rho1 x0) as [a|], (lookup_var rho2 x0) as [b|]; try contradiction.
-  - apply Hk; [|exact HR]. split; [exact Hv|apply Hc].
-  - destruct (list_N_eqb x0 nm_0); [|left; exact I]. apply Hk; [|exact HR]. split; [reflexivity|apply Hc].
+  - apply (krel_local _ _ _ _ Hk); [|exact HR]. split; [exact Hv|apply Hc].
+  - destruct (list_N_eqb x0 nm_0); [|left; exact I]. apply (krel_local _ _ _ _ Hk); [|exact HR]. split; [reflexivity|apply Hc].
 Qed.
 
 Lemma sim_native0 name : native0_ok name = true -> lookup_builtin bs name 0 = None -> sim MPlain (PNative0 name).
 Proof.
-  intros Hn Hb n rho1 rho2 x ps1 y k1 k2 s1 s2 He Hc Hk HR. do 3 fuel n.
+  intros Hn Hb n w rho1 rho2 x ps1 y k1 k2 s1 s2 He Hc Hk HR. do 3 fuel n.
   unfold native0_ok in Hn. repeat (apply andb_true_iff in Hn as [Hn ?]).
   repeat match goal with H : negb _ = true |- _ => apply negb_true_iff in H end.
   cbn [emb]. unfold eval_q, q_call, q_term. red_eval.
   unfold step_call. cbn [List.length]. rewrite Hn. cbn [andb].
-  destruct (env_rel_fun _ _ name O He) as [-> ->]. rewrite Hb.
+  destruct (env_rel_fun _ _ _ name O He) as [-> ->]. rewrite Hb.
   unfold guard_repsens.
   repeat match goal with H : _ = false |- _ => rewrite H end. cbn [orb].
   rewrite (proj1 Hc). destruct (call_native name (fst x) []) as [r|]; [|left; exact I].
-  apply lift_rel; [exact HR|]. intros w _. apply Hk; [|exact HR]. split; [reflexivity|apply Hc].
+  apply lift_rel; [exact HR|]. intros u _. apply (krel_local _ _ _ _ Hk); [|exact HR]. split; [reflexivity|apply Hc].
 Qed.
 
 Lemma sim_binop o a b : binop_ok o = true -> sim MPlain a -> sim MPlain b -> sim MPlain (PBinop o a b).
 Proof.
-  intros Ho Ha Hb n rho1 rho2 x ps1 y k1 k2 s1 s2 He Hc Hk HR. fuel n.
-  assert (Hp : forall w t1 t2, R t1 t2 -> RR (k1 (plain w) ps1 t1) (k2 (plain w) None t2)).
-  { intros w t1 t2 Ht. apply Hk; [|exact Ht]. split; [reflexivity|apply Hc]. }
+  intros Ho Ha Hb n w rho1 rho2 x ps1 y k1 k2 s1 s2 He Hc Hk HR. fuel n.
   assert (Hps : ps1 = None) by apply Hc. subst ps1.
+  assert (Hp : forall ext u t1 t2, SR root (ext ++ w) t1 t2 -> RR (ext ++ w) (k1 (plain u) None t1) (k2 (plain u) None t2)).
+  { intros ext u t1 t2 Ht. apply Hk; [|exact Ht]. split; reflexivity. }
   cbn [emb]. unfold eval_q, q_bin. red_eval.
-  destruct o; try discriminate Ho; cbn [op_binop];
-    try (apply Hb; try assumption; intros z ps' z' [Hz Hps] t1 t2 Ht; cbn in Hps; subst ps';
-         apply Ha; try assumption; intros u ps'' u' [Hu Hps] v1 v2 Hv; cbn in Hps; subst ps'';
-         rewrite Hz, Hu; apply lift_rel; [exact Hv|]; intros w _; apply Hp; exact Hv).
+  assert (Harith : forall f : jv -> jv -> nres,
+    RR w (ev_q (evals_n bs n) rho1 (emb b) x None (fun rv ps1 => ev_q (evals_n bs n) rho1 (emb a) x ps1
+            (fun lv_ ps2 => lift (f (fst lv_) (fst rv)) (fun u => k1 (plain u) ps2))) s1)
+         (ev_q (evals_n bs n) rho2 (emb b) y None (fun rv ps1 => ev_q (evals_n bs n) rho2 (emb a) y ps1
+            (fun lv_ ps2 => lift (f (fst lv_) (fst rv)) (fun u => k2 (plain u) ps2))) s2)).
+  { intros f. fold_eval. apply Hb; try assumption. intros ext z ps' z' [Hz Hps] t1 t2 Ht. cbn in Hps. subst ps'.
+    apply Ha; try assumption; [apply env_rel_mono; exact He|].
+    intros ext' u ps'' u' [Hu Hps] v1 v2 Hv. cbn in Hps. subst ps''.
+    rewrite Hz, Hu. apply lift_rel; [exact Hv|]. intros r _. rewrite app_assoc in *. apply Hp. exact Hv. }
+  destruct o; try discriminate Ho; cbn [op_binop]; try apply Harith.
   - (* and *)
-    apply Ha; try assumption. intros z ps' z' [Hz _] t1 t2 Ht. rewrite Hz.
+    apply Ha; try assumption. intros ext z ps' z' [Hz _] t1 t2 Ht. rewrite Hz.
     destruct (truthy (fst z)); [|apply Hp; exact Ht].
-    apply Hb; try assumption. intros u ps'' u' [Hu _] v1 v2 Hv. rewrite Hu. apply Hp. exact Hv.
+    apply Hb; try assumption; [apply env_rel_mono; exact He|].
+    intros ext' u ps'' u' [Hu _] v1 v2 Hv. rewrite Hu. rewrite app_assoc in *. apply Hp. exact Hv.
   - (* or *)
-    apply Ha; try assumption. intros z ps' z' [Hz _] t1 t2 Ht. rewrite Hz.
+    apply Ha; try assumption. intros ext z ps' z' [Hz _] t1 t2 Ht. rewrite Hz.
     destruct (truthy (fst z)); [apply Hp; exact Ht|].
-    apply Hb; try assumption. intros u ps'' u' [Hu _] v1 v2 Hv. rewrite Hu. apply Hp. exact Hv.
+    apply Hb; try assumption; [apply env_rel_mono; exact He|].
+    intros ext' u ps'' u' [Hu _] v1 v2 Hv. rewrite Hu. rewrite app_assoc in *. apply Hp. exact Hv.
 Qed.
 
 Lemma sim_bind m e x0 p : is_var_name x0 = true -> sim MPlain e -> sim m p -> sim m (PBind e x0 p).
 Proof.
-  intros Hx Hse Hp n rho1 rho2 x ps1 y k1 k2 s1 s2 He Hc Hk HR. do 2 fuel n.
+  intros Hx Hse Hp n w rho1 rho2 x ps1 y k1 k2 s1 s2 He Hc Hk HR. do 2 fuel n.
   cbn [emb]. unfold eval_q. red_eval.
   destruct syn_depth_S as [d Hd]. rewrite Hd.
   destruct x0 as [|c x0]; [discriminate Hx|].
   cbn [flat_map pattern_vars app fold_left alts_loop ev_bindpat step step_bind_pat].
-  fold_eval.
   fold_eval. apply Hse; try assumption; [eapply cfg_plain; exact Hc|].
-  intros z ps' z' [Hz _] t1 t2 Ht. apply Hp; try assumption.
-  apply ER_var; [symmetry; exact Hz|]. apply ER_var; [reflexivity|exact He].
+  intros ext z ps' z' [Hz _] t1 t2 Ht. apply Hp; try assumption; [|apply krel_mono; exact Hk].
+  apply ER_var; [symmetry; exact Hz|]. apply ER_var; [reflexivity|apply env_rel_mono; exact He].
 Qed.
 
 Lemma sim_idxdyn m e : query_index_key (emb e) = None -> sim MPlain e -> sim m (PIdxDyn e).
 Proof.
-  intros Hq Hse n rho1 rho2 x ps1 y k1 k2 s1 s2 He Hc Hk HR.
+  intros Hq Hse n w rho1 rho2 x ps1 y k1 k2 s1 s2 He Hc Hk HR.
   cbn [emb]. unfold eval_q, q_term. fuel n. red_eval. fuel n. red_eval. fuel n. red_eval.
   unfold step_eval_index. cbn [index_key negb]. rewrite Hq. fuel n. red_eval.
   fold_eval. apply Hse; try assumption; [eapply cfg_plain; exact Hc|].
-  intros z ps' z' [Hz _] t1 t2 Ht. rewrite Hz. eapply index_rel; eassumption.
+  intros ext z ps' z' [Hz _] t1 t2 Ht. rewrite Hz. eapply index_rel; try eassumption. apply Hk.
 Qed.
 
 Lemma sim_getpath m e : sim MPlain e -> sim m (PGetpath e).
 Proof.
-  intros Hse n rho1 rho2 x ps1 y k1 k2 s1 s2 He Hc Hk HR. do 3 fuel n.
+  intros Hse n w rho1 rho2 x ps1 y k1 k2 s1 s2 He Hc Hk HR. do 3 fuel n.
   cbn [emb]. unfold eval_q, q_call, q_term. red_eval.
   unfold step_call. cbn [List.length].
   replace (is_var_name (codes "getpath") && Nat.eqb 1 0) with false by reflexivity.
-  destruct (env_rel_fun _ _ (codes "getpath") 1%nat He) as [-> ->]. rewrite Hgetpath.
+  destruct (env_rel_fun _ _ _ (codes "getpath") 1%nat He) as [-> ->]. rewrite Hgetpath.
   unfold guard_repsens. replace (is_formatter (codes "getpath")) with false by reflexivity.
   replace (list_N_eqb (codes "getpath") nm_29) with false by reflexivity.
   replace (list_N_eqb (codes "getpath") nm_24) with true by reflexivity.
-  cbn [ev_q step]. apply Hse; try assumption; [eapply cfg_plain; exact Hc|].
-  intros z ps' z' [Hz _] t1 t2 Ht. rewrite Hz, (proj1 Hc).
-  apply lift_rel; [exact Ht|]. intros w Hw. destruct Hc as [Hy Hc]. destruct m.
+  cbn [ev_q step]. fold_eval. apply Hse; try assumption; [eapply cfg_plain; exact Hc|].
+  intros ext z ps' z' [Hz _] t1 t2 Ht. rewrite Hz, (proj1 Hc).
+  apply lift_rel; [exact Ht|]. intros u Hu. destruct Hc as [Hy Hc]. destruct m.
   - destruct Hc as [pp [-> HL]].
-    destruct (fst z) as [| | | |elems|] eqn:Ez; try discriminate Hw.
+    destruct (fst z) as [| | | |elems|] eqn:Ez; try discriminate Hu.
     destruct elems as [|e0 es].
-    + unfold bind. rewrite (check_linked _ _ _ _ HL). cbn in Hw. injection Hw as <-.
+    + unfold bind. rewrite (check_linked _ _ _ _ HL). cbn in Hu. injection Hu as <-.
       apply Hk; [|exact Ht]. split; [reflexivity|]. eexists. split; [reflexivity|].
       destruct HL as (L1 & L2 & L3 & L4). repeat split; assumption.
     + unfold bind. rewrite (check_linked _ _ _ _ HL). unfold fresh. cbn [fst snd].
-      apply Hk; [|apply R_bump; exact Ht]. split; [reflexivity|]. eexists. split; [reflexivity|].
-      destruct HL as (L1 & L2 & L3 & L4). apply getpath_ok_nav in Hw. rewrite L2 in Hw.
+      apply Hk; [|apply SR_bump; exact Ht]. split; [reflexivity|]. eexists. split; [reflexivity|].
+      destruct HL as (L1 & L2 & L3 & L4). apply getpath_ok_nav in Hu. rewrite L2 in Hu.
       repeat split; cbn [fst snd lid lv rpath].
-      * rewrite rev_app_distr, rev_involutive. rewrite (nav_path_app _ _ _ _ L3). exact Hw.
+      * rewrite rev_app_distr, rev_involutive. rewrite (nav_path_app _ _ _ _ L3). exact Hu.
       * eapply nav_path_wf; eassumption.
   - subst ps1. apply Hk; [|exact Ht]. split; reflexivity.
 Qed.
 
 Lemma sim_select m c : sim MPlain c -> sim m (PSelect c).
 Proof.
-  intros Hsc n rho1 rho2 x ps1 y k1 k2 s1 s2 He Hc Hk HR. do 3 fuel n.
+  intros Hsc n w rho1 rho2 x ps1 y k1 k2 s1 s2 He Hc Hk HR. do 3 fuel n.
   cbn [emb]. unfold eval_q, q_call, q_term. red_eval.
   unfold step_call. cbn [List.length].
   replace (is_var_name (codes "select") && Nat.eqb 1 0) with false by reflexivity.
-  destruct (env_rel_fun _ _ (codes "select") 1%nat He) as [-> ->]. rewrite Hselect.
+  destruct (env_rel_fun _ _ _ (codes "select") 1%nat He) as [-> ->]. rewrite Hselect.
   unfold select_def, q_call, q_identity, q_term.
   cbn [combine fold_left cps_fold fst snd].
   replace (is_var_name (codes "f")) with false by reflexivity.
@@ -653,60 +889,688 @@ Proof.
   replace (Nat.eqb 0 0 && list_N_eqb (strip_dollar (codes "f")) (codes "f")) with true by reflexivity.
   apply RR_tick; [exact Ht|]. intros u1 u2 Hu.
   fold_eval. apply Hsc; try assumption; [eapply cfg_plain; exact Hc|].
-  intros z ps' z' [Hz _] v1 v2 Hv. rewrite Hz. destruct (truthy (fst z)).
+  intros ext z ps' z' [Hz _] v1 v2 Hv. rewrite Hz. destruct (truthy (fst z)).
   - apply Hk; assumption.
-  - rewrite Hempty. apply RR_same. exact Hv.
+  - rewrite Hempty. apply RR_ret. exact Hv.
 Qed.
 
 (* the suffix form of `?` protects the last suffix only (compileTermSuffix) *)
 Lemma sim_optidx m i : index_key i <> None -> sim m (POptIdx i).
 Proof.
-  intros Hi n rho1 rho2 x ps1 y k1 k2 s1 s2 He Hc Hk HR.
+  intros Hi n w rho1 rho2 x ps1 y k1 k2 s1 s2 He Hc Hk HR.
   destruct (index_key i) as [key|] eqn:Ek; [|congruence].
   cbn [emb]. unfold eval_q. fuel n. red_eval. fuel n. red_eval.
-  apply RR_try; [|intros val t1 t2 Ht; apply RR_same; exact Ht].
+  apply RR_try; [|intros val t1 t2 Ht; apply RR_ret; exact Ht].
   fuel n. red_eval. fuel n. red_eval. unfold step_eval_index. rewrite Ek. fuel n. red_eval.
   eapply index_rel; try eassumption.
-  intros z ps' z' Hz t1 t2 Ht. apply RR_down. apply Hk; assumption.
+  intros z ps' z' Hz t1 t2 Ht. apply RR_down. apply (krel_local _ _ _ _ Hk); assumption.
 Qed.
 
 Lemma sim_optiter m : sim m POptIter.
 Proof.
-  intros n rho1 rho2 x ps1 y k1 k2 s1 s2 He Hc Hk HR.
+  intros n w rho1 rho2 x ps1 y k1 k2 s1 s2 He Hc Hk HR.
   cbn [emb]. unfold eval_q. fuel n. red_eval. fuel n. red_eval. fuel n. red_eval.
-  apply RR_try; [|intros val t1 t2 Ht; apply RR_same; exact Ht].
+  apply RR_try; [|intros val t1 t2 Ht; apply RR_ret; exact Ht].
   eapply iterate_rel; try eassumption.
-  intros z ps' z' Hz t1 t2 Ht. apply RR_down. apply Hk; assumption.
+  intros z ps' z' Hz t1 t2 Ht. apply RR_down. apply (krel_local _ _ _ _ Hk); assumption.
 Qed.
 
 (* terms with suffix lists *)
-Lemma simT m kind : (kind = TIdentity \/ exists i, kind = TIndex i /\ index_key i <> None) ->
-  forall ss, Forall suf_ok ss ->
-  forall n rho1 rho2 x ps1 y k1 k2 s1 s2, env_rel rho1 rho2 -> cfg m x ps1 y -> krel m k1 k2 -> R s1 s2 ->
-  RR (ev_t (evals_n bs n) rho1 (Term kind (map emb_suf ss)) x ps1 k1 s1)
-     (ev_t (evals_n bs n) rho2 (Term kind (map emb_suf ss)) y None k2 s2).
+Lemma last_case {A} (l : list A) : l = [] \/ exists l' x, l = l' ++ [x].
+Proof. induction l as [|x l' _] using rev_ind; [left; reflexivity|right; exists l', x; reflexivity]. Qed.
+
+Definition simT_at (m : mode) (kind : termkind) (ss : list psuf) : Prop :=
+  forall n w rho1 rho2 x ps1 y k1 k2 s1 s2, env_rel w rho1 rho2 -> cfg m x ps1 y -> klocal m w k1 k2 -> SR root w s1 s2 ->
+  RR w (ev_t (evals_n bs n) rho1 (Term kind (map emb_suf ss)) x ps1 k1 s1)
+       (ev_t (evals_n bs n) rho2 (Term kind (map emb_suf ss)) y None k2 s2).
+
+Lemma simT_base m kind : (kind = TIdentity \/ exists i, kind = TIndex i /\ index_key i <> None) -> simT_at m kind [].
 Proof.
-  intros Hkind ss. induction ss as [|s ss IH] using rev_ind; intros Hss n rho1 rho2 x ps1 y k1 k2 s1 s2 He Hc Hk HR.
-  - cbn [map]. fuel n. destruct Hkind as [->|[i [-> Hi]]].
-    + red_eval. apply Hk; assumption.
-    + destruct (index_key i) as [key|] eqn:Ek; [|congruence].
-      red_eval. fuel n. red_eval. unfold step_eval_index. rewrite Ek. fuel n. red_eval.
-      eapply index_rel; eassumption.
-  - apply Forall_app in Hss as [Hss Hs]. inversion Hs as [|? ? Hs1 _]; subst.
-    rewrite map_app. cbn [map]. fuel n. cbn [evals_n step ev_t]. unfold step_eval_t. rewrite !rev_unit.
-    destruct s as [i|]; cbn [emb_suf suf_ok] in *; cbv beta iota; rewrite !rev_involutive.
-    + destruct (index_key i) as [key|] eqn:Ek; [|congruence].
-      fuel n. cbn [evals_n step ev_index]. unfold step_eval_index. rewrite Ek.
-      apply IH; try assumption. intros z ps' z' Hz t1 t2 Ht. eapply index_rel; eassumption.
-    + apply IH; try assumption. intros z ps' z' Hz t1 t2 Ht. eapply iterate_rel; eassumption.
+  intros Hkind n w rho1 rho2 x ps1 y k1 k2 s1 s2 He Hc Hk HR.
+  cbn [map]. fuel n. destruct Hkind as [->|[i [-> Hi]]].
+  - red_eval. apply Hk; assumption.
+  - destruct (index_key i) as [key|] eqn:Ek; [|congruence].
+    red_eval. fuel n. red_eval. unfold step_eval_index. rewrite Ek. fuel n. red_eval.
+    eapply index_rel; eassumption.
+Qed.
+
+Lemma klocal_protect m w k1 k2 (in1 in2 : tv -> pst -> K -> M unit) :
+  klocal m w k1 k2 ->
+  (forall z ps' z' j1 j2 t1 t2, cfg m z ps' z' -> klocal m w j1 j2 -> SR root w t1 t2 ->
+     RR w (in1 z ps' j1 t1) (in2 z' None j2 t2)) ->
+  klocal m w (fun x ps' => try_catch (in1 x ps' (fun y ps'' => down (k1 y ps''))) (fun _ => ret tt))
+             (fun x ps' => try_catch (in2 x ps' (fun y ps'' => down (k2 y ps''))) (fun _ => ret tt)).
+Proof.
+  intros Hk Hin z ps' z' Hz t1 t2 Ht. apply RR_try; [|intros val u1 u2 Hu; apply RR_ret; exact Hu].
+  apply Hin; try assumption. intros q ps'' q' Hq u1 u2 Hu. apply RR_down. apply Hk; assumption.
+Qed.
+
+Lemma simT m kind : (kind = TIdentity \/ exists i, kind = TIndex i /\ index_key i <> None) ->
+  forall len ss, (List.length ss <= len)%nat -> Forall suf_ok ss -> simT_at m kind ss.
+Proof.
+  intros Hkind len. induction len as [|len IH]; intros ss Hlen Hss.
+  { destruct ss; [apply simT_base; exact Hkind|cbn in Hlen; lia]. }
+  destruct (last_case ss) as [->|(ss1 & s & ->)]; [apply simT_base; exact Hkind|].
+  rewrite app_length in Hlen. cbn in Hlen.
+  apply Forall_app in Hss as [Hss1 Hs]. inversion Hs as [|? ? Hs1 _]; subst.
+  assert (IH1 : simT_at m kind ss1) by (apply IH; [lia|exact Hss1]).
+  intros n w rho1 rho2 x ps1 y k1 k2 st1 st2 He Hc Hk HR.
+  rewrite map_app. cbn [map]. fuel n. cbn [evals_n step ev_t]. unfold step_eval_t. rewrite !rev_unit.
+  destruct s as [i| |]; cbn [emb_suf suf_ok] in *; cbv beta iota.
+  - rewrite !rev_involutive. destruct (index_key i) as [key|] eqn:Ek; [|congruence].
+    fuel n. cbn [evals_n step ev_index]. unfold step_eval_index. rewrite Ek.
+    apply IH1; try assumption. intros z ps' z' Hz t1 t2 Ht. eapply index_rel; eassumption.
+  - rewrite !rev_involutive. apply IH1; try assumption. intros z ps' z' Hz t1 t2 Ht. eapply iterate_rel; eassumption.
+  - (* ? : protects the suffix before it *)
+    destruct (last_case ss1) as [->|(ss2 & sb & ->)].
+    + cbn [map rev]. cbv beta iota.
+      apply (klocal_protect m w k1 k2 (fun x0 ps' kk => ev_t (evals_n bs n) rho1 (Term kind []) x0 ps' kk)
+                                        (fun x0 ps' kk => ev_t (evals_n bs n) rho2 (Term kind []) x0 ps' kk)); try assumption.
+      intros z ps' z' j1 j2 t1 t2 Hz Hj Ht. apply (simT_base m kind Hkind); assumption.
+    + rewrite map_app. cbn [map]. rewrite !rev_unit.
+      apply Forall_app in Hss1 as [Hss2 Hs2]. inversion Hs2 as [|? ? Hs2' _]; subst.
+      rewrite app_length in Hlen. cbn in Hlen.
+      assert (IH2 : simT_at m kind ss2) by (apply IH; [lia|exact Hss2]).
+      destruct sb as [i| |]; cbn [emb_suf suf_ok] in *; cbv beta iota.
+      * rewrite !rev_involutive. apply IH2; try assumption.
+        apply (klocal_protect m w k1 k2 (fun x0 ps' kk => ev_t (evals_n bs n) rho1 (Term (TIndex i) []) x0 ps' kk)
+                                          (fun x0 ps' kk => ev_t (evals_n bs n) rho2 (Term (TIndex i) []) x0 ps' kk)); try assumption.
+        intros z ps' z' j1 j2 t1 t2 Hz Hj Ht.
+        apply (simT_base m (TIndex i)); try assumption. right. exists i. split; [reflexivity|assumption].
+      * rewrite !rev_involutive. apply IH2; try assumption.
+        apply (klocal_protect m w k1 k2 (fun x0 ps' kk => iterate x0 ps' kk) (fun x0 ps' kk => iterate x0 ps' kk)); try assumption.
+        intros z ps' z' j1 j2 t1 t2 Hz Hj Ht. eapply iterate_rel; eassumption.
+      * cbn [rev]. rewrite !rev_involutive.
+        change [Suffix None false true] with (map emb_suf [SOpt]). rewrite <- !map_app.
+        assert (IH3 : simT_at m kind (ss2 ++ [SOpt])) by (apply IH; [rewrite app_length; cbn; lia|apply Forall_app; split; assumption]).
+        apply RR_try; [|intros val u1 u2 Hu; apply RR_ret; exact Hu].
+        apply IH3; try assumption. intros q ps'' q' Hq u1 u2 Hu. apply RR_down. apply Hk; assumption.
 Qed.
 
 Lemma sim_chain m h ss : match h with Some i => index_key i <> None | None => True end -> Forall suf_ok ss ->
   sim m (PChain h ss).
 Proof.
-  intros Hh Hss n rho1 rho2 x ps1 y k1 k2 s1 s2 He Hc Hk HR. fuel n.
+  intros Hh Hss n w rho1 rho2 x ps1 y k1 k2 s1 s2 He Hc Hk HR. fuel n.
   cbn [emb]. unfold eval_q. cbn [evals_n step ev_q step_eval_q push_defs fold_left].
-  apply (simT m); try assumption. destruct h as [i|]; [right; exists i; split; [reflexivity|exact Hh]|left; reflexivity].
+  assert (Hkind : (match h with Some i => TIndex i | None => TIdentity end) = TIdentity \/
+                  exists i, (match h with Some i => TIndex i | None => TIdentity end) = TIndex i /\ index_key i <> None).
+  { destruct h as [i|]; [right; exists i; split; [reflexivity|exact Hh]|left; reflexivity]. }
+  apply (simT m _ Hkind (List.length ss) ss (le_n _) Hss); try assumption. apply krel_local. exact Hk.
+Qed.
+
+(* -- constructs with frames -- *)
+Lemma RR_pop_cell fr w r1 r2 : f_lab fr = false -> RR (fr :: w) r1 r2 ->
+  declined r1 \/ declined r2 \/ (rrel w (fst r1) (fst r2) /\ SR root (fr :: w) (snd r1) (snd r2)).
+Proof.
+  intros Hf [H|[H|[H H']]]; [left; exact H|right; left; exact H|]. right. right. split; [|exact H'].
+  destruct (fst r1) as [[]|x1], (fst r2) as [[]|x2]; cbn [rrel] in *; try tauto. eapply xrel_pop_cell; eassumption.
+Qed.
+
+Lemma app_cons_assoc {A} (ext : list A) fr w : ext ++ fr :: w = (ext ++ [fr]) ++ w.
+Proof. rewrite <- app_assoc. reflexivity. Qed.
+
+Lemma sim_alt m a b : sim m a -> sim m b -> sim m (PAlt a b).
+Proof.
+  intros Ha Hb n w rho1 rho2 x ps1 y k1 k2 s1 s2 He Hc Hk HR. fuel n.
+  cbn [emb]. unfold eval_q, q_bin. red_eval.
+  apply (with_cell_rel w false); [exact HR|reflexivity| |].
+  - intros t1 t2 Ht. apply RR_pop_cell; [reflexivity|]. fold_eval.
+    apply Ha; try assumption; [apply (env_rel_mono [_]); exact He|].
+    intros ext z ps' z' Hz u1 u2 Hu. rewrite (proj1 Hz). destruct (truthy (fst z)); [|apply RR_ret; exact Hu].
+    apply RR_bind.
+    + apply (set_cell_rel ext (mkfr false (nextid s1) (nextid s2)) w); [exact Hu|reflexivity].
+    + intros v1 v2 Hv. rewrite app_cons_assoc in *. apply Hk; assumption.
+  - intros v1 v2 t1 t2 Hv Ht. rewrite Hv. destruct (truthy (fst v2)); [apply RR_ret; exact Ht|].
+    fold_eval. apply Hb; assumption.
+Qed.
+
+Lemma sim_first m p : sim m p -> sim m (PFirst p).
+Proof.
+  intros Hp n w rho1 rho2 x ps1 y k1 k2 s1 s2 He Hc Hk HR. do 3 fuel n.
+  cbn [emb]. unfold eval_q, q_call, q_term. red_eval.
+  unfold step_call. cbn [List.length].
+  replace (is_var_name (codes "first") && Nat.eqb 1 0) with false by reflexivity.
+  destruct (env_rel_fun _ _ _ (codes "first") 1%nat He) as [-> ->]. rewrite Hfirst.
+  unfold first_def, q_call, q_identity, q_term, q_bin.
+  cbn [combine fold_left cps_fold fst snd].
+  replace (is_var_name (codes "g")) with false by reflexivity.
+  apply RR_tick; [exact HR|]. intros t1 t2 Ht.
+  fuel n. red_eval. fuel n. red_eval.
+  unfold with_label. apply (with_cell_rel w true); [exact Ht|reflexivity| |].
+  - intros u1 u2 Hu. apply catch_break_rel; [exact Hu|].
+    fuel n. red_eval. fuel n. red_eval. fuel n. red_eval. fuel n. red_eval.
+    unfold step_call. cbn [List.length].
+    replace (is_var_name (codes "g") && Nat.eqb 0 0) with false by reflexivity.
+    cbn [lookup_fun].
+    replace (Nat.eqb 0 0 && list_N_eqb (strip_dollar (codes "g")) (codes "g")) with true by reflexivity.
+    apply RR_tick; [exact Hu|]. intros v1 v2 Hv.
+    fold_eval. apply Hp; try assumption; [apply (env_rel_mono [_]); exact He|].
+    intros ext z ps' z' Hz r1 r2 Hr.
+    cbn [evals_n step ev_q step_eval_q push_defs fold_left ev_t step_eval_t rev app lookup_label].
+    replace (list_N_eqb (codes "$out") (codes "$out")) with true by reflexivity.
+    apply RR_bind.
+    + rewrite app_cons_assoc in *. apply Hk; assumption.
+    + intros q1 q2 Hq. right. right. split; [|exact Hq]. cbn [fst rrel xrel].
+      exists (mkfr true (nextid t1) (nextid t2)). split; [apply in_or_app; right; left; reflexivity|repeat split].
+  - intros v1 v2 r1 r2 _ Hr. apply RR_ret. exact Hr.
+Qed.
+
+(* -- recursion: def recurse(f): def r: ., (f | r); r;  by induction on the fuel -- *)
+Definition env_r (f : pq) (rho : env) : env := [BFun rec_r_def; BClos (strip_dollar (codes "f")) (emb f) rho].
+
+Lemma env_r_lookup_r f rho : lookup_fun (env_r f rho) (codes "r") 0 = Some (CFun rec_r_def (env_r f rho)).
+Proof. reflexivity. Qed.
+Lemma env_r_lookup_f f rho : lookup_fun (env_r f rho) (codes "f") 0 = Some (CClos (emb f) rho).
+Proof. reflexivity. Qed.
+
+Lemma rec_loop m f : sim m f ->
+  forall n w rho1 rho2 x ps1 y k1 k2 s1 s2,
+    env_rel w rho1 rho2 -> cfg m x ps1 y -> krel m w k1 k2 -> SR root w s1 s2 ->
+    RR w (eval_q bs n (env_r f rho1) (q_call (codes "r") []) x ps1 k1 s1)
+         (eval_q bs n (env_r f rho2) (q_call (codes "r") []) y None k2 s2).
+Proof.
+  intros Hf n. induction n as [n IH] using (well_founded_induction lt_wf).
+  intros w rho1 rho2 x ps1 y k1 k2 s1 s2 He Hc Hk HR.
+  destruct n as [|n]; [left; exact I|]. destruct n as [|n]; [left; exact I|]. destruct n as [|n]; [left; exact I|].
+  unfold eval_q, q_call, q_term. red_eval.
+  unfold step_call. cbn [List.length].
+  replace (is_var_name (codes "r") && Nat.eqb 0 0) with false by reflexivity.
+  rewrite !env_r_lookup_r.
+  apply RR_tick; [exact HR|]. intros t1 t2 Ht.
+  unfold rec_r_def. cbn [combine fold_left cps_fold].
+  unfold q_bin, q_identity, q_call, q_term.
+  destruct n as [|n]; [left; exact I|]. red_eval.
+  destruct n as [|n]; [left; exact I|]. red_eval.
+  destruct n as [|n]; [left; exact I|]. red_eval.
+  apply RR_bind; [apply (krel_local _ _ _ _ Hk); assumption|]. intros u1 u2 Hu.
+  destruct n as [|n]; [left; exact I|]. red_eval.
+  destruct n as [|n]; [left; exact I|]. red_eval.
+  destruct n as [|n]; [left; exact I|]. red_eval.
+  destruct n as [|n]; [left; exact I|]. red_eval.
+  unfold step_call at 1 3. cbn [List.length].
+  replace (is_var_name (codes "f") && Nat.eqb 0 0) with false by reflexivity.
+  rewrite !env_r_lookup_f.
+  apply RR_tick; [exact Hu|]. intros v1 v2 Hv.
+  fold_eval. apply Hf; try assumption.
+  intros ext z ps' z' Hz r1 r2 Hr.
+  change (RR (ext ++ w) (eval_q bs (S (S (S n))) (env_r f rho1) (q_call (codes "r") []) z ps' k1 r1)
+                        (eval_q bs (S (S (S n))) (env_r f rho2) (q_call (codes "r") []) z' None k2 r2)).
+  apply IH; try assumption; [lia|apply env_rel_mono; exact He|apply krel_mono; exact Hk].
+Qed.
+
+Lemma sim_recurse1 m f : sim m f -> sim m (PRecurse1 f).
+Proof.
+  intros Hf n w rho1 rho2 x ps1 y k1 k2 s1 s2 He Hc Hk HR. do 3 fuel n.
+  cbn [emb]. unfold eval_q, q_call, q_term. red_eval.
+  unfold step_call. cbn [List.length].
+  replace (is_var_name (codes "recurse") && Nat.eqb 1 0) with false by reflexivity.
+  destruct (env_rel_fun _ _ _ (codes "recurse") 1%nat He) as [-> ->]. rewrite Hrec1.
+  unfold recurse1_def.
+  cbn [combine fold_left cps_fold fst snd].
+  replace (is_var_name (codes "f")) with false by reflexivity.
+  apply RR_tick; [exact HR|]. intros t1 t2 Ht.
+  fuel n. cbn [evals_n step ev_q step_eval_q push_defs fold_left].
+  change (RR w (eval_q bs (S n) (env_r f rho1) (q_call (codes "r") []) x ps1 k1 t1)
+               (eval_q bs (S n) (env_r f rho2) (q_call (codes "r") []) y None k2 t2)).
+  apply (rec_loop m); assumption.
+Qed.
+
+Lemma sim_recurse0_gen m (q : query) : (q = q_call (codes "recurse") [] \/ q = q_term TRecurse) ->
+  forall n w rho1 rho2 x ps1 y k1 k2 s1 s2,
+    env_rel w rho1 rho2 -> cfg m x ps1 y -> krel m w k1 k2 -> SR root w s1 s2 ->
+    RR w (eval_q bs n rho1 q x ps1 k1 s1) (eval_q bs n rho2 q y None k2 s2).
+Proof.
+  intros Hq n w rho1 rho2 x ps1 y k1 k2 s1 s2 He Hc Hk HR.
+  assert (Hcall : forall n0, RR w (ev_call (evals_n bs n0) rho1 (codes "recurse") [] x ps1 k1 s1)
+                                  (ev_call (evals_n bs n0) rho2 (codes "recurse") [] y None k2 s2)).
+  { intros n0. destruct n0 as [|n0]; [left; exact I|].
+    cbn [evals_n step ev_call]. unfold step_call. cbn [List.length].
+    replace (is_var_name (codes "recurse") && Nat.eqb 0 0) with false by reflexivity.
+    destruct (env_rel_fun _ _ _ (codes "recurse") 0%nat He) as [-> ->]. rewrite Hrec0.
+    unfold recurse0_def. cbn [combine fold_left cps_fold fst snd].
+    apply RR_tick; [exact HR|]. intros t1 t2 Ht.
+    apply (sim_recurse1 m POptIter (sim_optiter m) n0 w [] []); try assumption. constructor. }
+  destruct Hq as [-> | ->]; unfold eval_q, q_call, q_term; fuel n; red_eval; fuel n; red_eval; apply Hcall.
+Qed.
+
+Lemma sim_recurse0 m : sim m PRecurse0.
+Proof. intros n w rho1 rho2 x ps1 y k1 k2 s1 s2. cbn [emb]. apply sim_recurse0_gen. left. reflexivity. Qed.
+Lemma sim_dotdot m : sim m PDotDot.
+Proof. intros n w rho1 rho2 x ps1 y k1 k2 s1 s2. cbn [emb]. apply sim_recurse0_gen. right. reflexivity. Qed.
+
+(* -- limit: label + foreach with a counter cell -- *)
+(* calls, one run at a time *)
+Lemma call_var E rho nm xv v ps k : is_var_name nm = true -> lookup_var rho nm = Some xv ->
+  step_call bs E rho nm [] v ps k = k xv ps.
+Proof. intros Hv Hl. unfold step_call. cbn [List.length]. rewrite Hv, Hl. reflexivity. Qed.
+
+Lemma call_clos E rho nm body cenv v ps k : is_var_name nm = false -> lookup_fun rho nm 0 = Some (CClos body cenv) ->
+  step_call bs E rho nm [] v ps k = (tick ;; ev_q E cenv body v ps k).
+Proof. intros Hv Hl. unfold step_call. cbn [List.length]. rewrite Hv, Hl. reflexivity. Qed.
+
+Lemma call_empty E rho v ps k : lookup_fun rho (codes "empty") 0 = None ->
+  step_call bs E rho (codes "empty") [] v ps k = ret tt.
+Proof.
+  intros Hl. unfold step_call. cbn [List.length].
+  replace (is_var_name (codes "empty") && Nat.eqb 0 0) with false by reflexivity. rewrite Hl, Hempty. reflexivity.
+Qed.
+
+Lemma call_error1 n rho msg v ps k s : lookup_fun rho (codes "error") 1 = None ->
+  step_call bs (evals_n bs (S (S (S n)))) rho (codes "error") [q_term (TString (JString msg None))] v ps k s =
+  raise_err EUser (Some (VStr msg)) s.
+Proof.
+  intros Hl. unfold step_call. cbn [List.length].
+  replace (is_var_name (codes "error") && Nat.eqb 1 0) with false by reflexivity. rewrite Hl, Herror1.
+  unfold guard_repsens. replace (is_formatter (codes "error")) with false by reflexivity.
+  replace (list_N_eqb (codes "error") nm_29) with false by reflexivity.
+  replace (list_N_eqb (codes "error") nm_24) with false by reflexivity.
+  replace (list_N_eqb (codes "error") nm_12) with false by reflexivity.
+  unfold q_term. cbn [rev app cps_fold fst snd evals_n step ev_q step_eval_q push_defs fold_left ev_t step_eval_t ev_string step_eval_string plain].
+  reflexivity.
+Qed.
+
+Lemma call_error1' n rho msg v ps k s : lookup_fun rho (codes "error") 1 = None ->
+  declined (step_call bs (evals_n bs n) rho (codes "error") [q_term (TString (JString msg None))] v ps k s) \/
+  step_call bs (evals_n bs n) rho (codes "error") [q_term (TString (JString msg None))] v ps k s =
+  raise_err EUser (Some (VStr msg)) s.
+Proof.
+  intros Hl. destruct n as [|[|[|n]]]; [left|left|left|right; apply call_error1; exact Hl];
+    unfold step_call; cbn [List.length];
+    replace (is_var_name (codes "error") && Nat.eqb 1 0) with false by reflexivity; rewrite Hl, Herror1;
+    unfold guard_repsens; replace (is_formatter (codes "error")) with false by reflexivity;
+    replace (list_N_eqb (codes "error") nm_29) with false by reflexivity;
+    replace (list_N_eqb (codes "error") nm_24) with false by reflexivity;
+    replace (list_N_eqb (codes "error") nm_12) with false by reflexivity; exact I.
+Qed.
+
+Definition lim_env (nv : jv) (e p : pq) (rho : env) : env :=
+  [BVar (codes "$n") (plain nv); BClos (strip_dollar (codes "g")) (emb p) rho; BClos (strip_dollar (codes "$n")) (emb e) rho].
+
+Lemma lim_lookup_empty1 nv e p rho : lookup_fun (lim_env nv e p rho) (codes "empty") 0 = None.
+Proof. reflexivity. Qed.
+Lemma lim_lookup_empty2 nv e p rho a b c d :
+  lookup_fun (BVar a b :: BLabel c d :: lim_env nv e p rho) (codes "empty") 0 = None.
+Proof. reflexivity. Qed.
+Lemma lim_lookup_error nv e p rho : lookup_fun (lim_env nv e p rho) (codes "error") 1 = None.
+Proof. reflexivity. Qed.
+
+Lemma get_cell_rel ext fr w (g1 g2 : tv -> M unit) s1 s2 : SR root (ext ++ fr :: w) s1 s2 ->
+  (forall u1 u2, fst u1 = fst u2 -> RR (ext ++ fr :: w) (g1 u1 s1) (g2 u2 s2)) ->
+  RR (ext ++ fr :: w) ((cur <- get_cell (f1 fr) ;; g1 cur) s1) ((cur <- get_cell (f2 fr) ;; g2 cur) s2).
+Proof.
+  intros H Hg. destruct (SR_get _ _ _ _ _ H) as (u1 & u2 & L1 & L2 & Hu).
+  unfold bind, get_cell. rewrite L1, L2. apply Hg. exact Hu.
+Qed.
+
+Lemma limit_body_rel m e p : sim m p ->
+  forall n w rho1 rho2 nv x ps1 y k1 k2 u1 u2,
+    env_rel w rho1 rho2 -> cfg m x ps1 y -> krel m w k1 k2 -> SR root w u1 u2 ->
+    RR w (eval_q bs n (lim_env nv e p rho1) lim_body x ps1 k1 u1)
+         (eval_q bs n (lim_env nv e p rho2) lim_body y None k2 u2).
+Proof.
+  intros Hp n w rho1 rho2 nv x ps1 y k1 k2 u1 u2 He Hc Hk HU.
+  pose proof (env_rel_fun _ _ _ (codes "empty") 0%nat He) as [Em1 Em2].
+  pose proof (env_rel_fun _ _ _ (codes "error") 1%nat He) as [Er1 Er2].
+  (* the body: if $n > 0 ... elif $n == 0 ... else ... *)
+  unfold eval_q, lim_body, q_term. fuel n. red_eval. fuel n. red_eval. cbn [if_chain].
+  unfold q_bin, lim_zero, q_call, q_term.
+  fuel n. red_eval. fuel n. red_eval. fuel n. red_eval. fuel n. red_eval.
+  cbn [op_binop]. rewrite !(call_var _ _ (codes "$n") (plain nv)) by reflexivity. cbn [op_binop fst plain].
+  apply lift_rel; [exact HU|]. intros b1 _. destruct (truthy b1).
+  - (* label $out | foreach ... *)
+    unfold with_label. apply (with_cell_rel w true); [exact HU|reflexivity| |intros; apply RR_ret; assumption].
+    intros v1 v2 Hv. apply catch_break_rel; [exact Hv|].
+    set (frl := mkfr true (nextid u1) (nextid u2)) in *.
+    unfold lim_foreach, q_call, q_term. red_eval. fuel n. red_eval. fuel n. red_eval. fuel n. red_eval.
+    rewrite !(call_var _ _ (codes "$n") (plain nv)) by reflexivity.
+    apply (with_cell_rel (frl :: w) false); [exact Hv|reflexivity| |intros; apply RR_ret; assumption].
+    intros r1 r2 Hr. apply RR_pop_cell; [reflexivity|].
+    set (frc := mkfr false (nextid v1) (nextid v2)) in *.
+    rewrite (call_clos _ _ (codes "g") (emb p) rho1), (call_clos _ _ (codes "g") (emb p) rho2) by reflexivity.
+    apply RR_tick; [exact Hr|]. intros q1 q2 Hq.
+    fold_eval. apply Hp; try assumption; [apply (env_rel_mono [_; _]); exact He|].
+    (* per item *)
+    intros ext z ps' z' Hz a1 a2 Ha.
+    cbn [evals_n step ev_bindpat step_bind_pat].
+    change (ext ++ frc :: frl :: w) with (ext ++ frc :: (frl :: w)) in *.
+    apply (get_cell_rel ext frc (frl :: w)); [exact Ha|]. intros c1 c2 Hcur.
+    unfold lim_upd, q_bin, q_identity, q_term. red_eval. cbn [op_binop]. rewrite Hcur.
+    apply lift_rel; [exact Ha|]. intros cnt _.
+    apply RR_bind; [apply (set_cell_rel ext frc (frl :: w)); [exact Ha|reflexivity]|]. intros b1' b2' Hb.
+    unfold lim_ext, q_bin, q_call, q_term. red_eval.
+    apply RR_bind.
+    + fuel n. red_eval. rewrite !(call_var _ _ (codes "$item") _) by reflexivity.
+      replace (ext ++ frc :: frl :: w) with ((ext ++ [frc; frl]) ++ w) in * by (rewrite <- app_assoc; reflexivity).
+      apply Hk; assumption.
+    + intros d1 d2 Hd. fuel n. red_eval. cbn [if_chain]. unfold lim_zero, q_identity, q_term.
+      fuel n. red_eval. fuel n. red_eval. cbn [op_binop fst plain].
+      apply lift_rel; [exact Hd|]. intros b2 _. destruct (truthy b2).
+      * cbn [lookup_label]. replace (list_N_eqb (codes "$out") (codes "$out")) with true by reflexivity.
+        right. right. split; [|exact Hd]. cbn [fst rrel xrel]. exists frl.
+        split; [apply in_or_app; right; right; left; reflexivity|repeat split].
+      * rewrite !call_empty by apply lim_lookup_empty2. apply RR_ret. exact Hd.
+  - (* elif $n == 0 then empty else error(..) *)
+    try rewrite !(call_var _ _ (codes "$n") (plain nv)) by reflexivity. cbn [op_binop fst plain].
+    apply lift_rel; [exact HU|]. intros b2 _. destruct (truthy b2).
+    + rewrite !call_empty by apply lim_lookup_empty1. apply RR_ret. exact HU.
+    + change (step bs (evals_n bs n)) with (evals_n bs (S n)).
+      destruct (call_error1' (S n) (lim_env nv e p rho1) lim_msg x ps1 k1 u1 (lim_lookup_error _ _ _ _)) as [D|E1];
+        [left; exact D|].
+      destruct (call_error1' (S n) (lim_env nv e p rho2) lim_msg y None k2 u2 (lim_lookup_error _ _ _ _)) as [D|E2];
+        [right; left; exact D|].
+      unfold q_term in E1, E2. rewrite E1, E2. apply raise_err_rel. exact HU.
+Qed.
+
+Lemma sim_limit m e p : sim MPlain e -> sim m p -> sim m (PLimit e p).
+Proof.
+  intros Hse Hp n w rho1 rho2 x ps1 y k1 k2 s1 s2 He Hc Hk HR. do 3 fuel n.
+  cbn [emb]. unfold eval_q, q_call, q_term. red_eval.
+  unfold step_call. cbn [List.length].
+  replace (is_var_name (codes "limit") && Nat.eqb 2 0) with false by reflexivity.
+  destruct (env_rel_fun _ _ _ (codes "limit") 2%nat He) as [-> ->]. rewrite Hlimit.
+  unfold limit_def. cbn [combine fold_left cps_fold fst snd].
+  replace (is_var_name (codes "$n")) with true by reflexivity.
+  replace (is_var_name (codes "g")) with false by reflexivity.
+  apply RR_tick; [exact HR|]. intros t1 t2 Ht.
+  fold_eval. apply Hse; try assumption; [eapply cfg_plain; exact Hc|].
+  intros ext nz ps' nz' [Hnz _] u1 u2 Hu. rewrite Hnz.
+  change (RR (ext ++ w) (eval_q bs n (lim_env (fst nz) e p rho1) lim_body x ps1 k1 u1)
+                        (eval_q bs n (lim_env (fst nz) e p rho2) lim_body y None k2 u2)).
+  apply (limit_body_rel m e p Hp); try assumption; [apply env_rel_mono; exact He|apply krel_mono; exact Hk].
+Qed.
+
+(* -- elif -- *)
+Lemma emb_if_shape p : forall m, ok bs m p -> if_form p = true ->
+  exists c2 a2 elifs els, emb p = q_term (TIf c2 a2 elifs els).
+Proof.
+  induction p; intros m H F; try discriminate F; cbn [emb].
+  - do 4 eexists. reflexivity.
+  - do 4 eexists. reflexivity.
+  - cbn [ok] in H. destruct H as (_ & _ & H3 & H4). destruct (IHp3 m H3 H4) as (c2 & a2 & el & els & E).
+    rewrite E. unfold q_term. do 4 eexists. reflexivity.
+Qed.
+
+Lemma sim_elif m c a rest : sim MPlain c -> sim m a -> sim m rest ->
+  (exists c2 a2 elifs els, emb rest = q_term (TIf c2 a2 elifs els)) -> sim m (PElif c a rest).
+Proof.
+  intros Hsc Ha Hrest (c2 & a2 & el & els & E) n w rho1 rho2 x ps1 y k1 k2 s1 s2 He Hc Hk HR.
+  cbn [emb]. rewrite E. unfold q_term. fuel n. fuel n. unfold eval_q. red_eval. cbn [if_chain].
+  apply (sim_if_gen m c _ _ _ _ n w rho1 rho2 x ps1 y s1 s2); try assumption; intros ext t1 t2 Ht.
+  - apply Ha; try assumption; [apply env_rel_mono; exact He|apply krel_mono; exact Hk].
+  - pose proof (Hrest (S (S n)) (ext ++ w) rho1 rho2 x ps1 y k1 k2 t1 t2 (env_rel_mono _ _ _ _ He) Hc (krel_mono _ _ _ _ _ Hk) Ht) as Hr.
+    rewrite E in Hr. exact Hr.
+Qed.
+
+(* -- computed slice bounds -- *)
+Lemma slice_key_index v sv ev : fn_index2 v (VObj (obj_set (obj_set [] nm_start sv) nm_end ev)) = fn_slice v ev sv.
+Proof. destruct v; reflexivity. Qed.
+
+Lemma slice_core m w n rho1 rho2 x ps1 y k1 k2 sv ev t1 t2 :
+  cfg m x ps1 y -> klocal m w k1 k2 -> SR root w t1 t2 ->
+  RR w (ev_t (evals_n bs n) rho1 (Term TIdentity []) x ps1
+          (fun x0 ps' => lift (fn_slice (fst x0) ev sv)
+             (fun u => nav ps' x0 (VObj (obj_set (obj_set [] nm_start sv) nm_end ev)) u k1)) t1)
+       (ev_t (evals_n bs n) rho2 (Term TIdentity []) y None
+          (fun x0 ps' => lift (fn_slice (fst x0) ev sv)
+             (fun u => nav ps' x0 (VObj (obj_set (obj_set [] nm_start sv) nm_end ev)) u k2)) t2).
+Proof.
+  intros Hc Hk Ht. fuel n. red_eval. rewrite <- !slice_key_index. eapply index_rel; eassumption.
+Qed.
+
+Lemma sim_slicedyn m ha hb a b :
+  (ha = true -> sim MPlain a) -> (hb = true -> sim MPlain b) ->
+  index_key (Index [] None (if ha then Some (emb a) else None) (if hb then Some (emb b) else None) true) = None ->
+  sim m (PSliceDyn ha hb a b).
+Proof.
+  intros Ha Hb Hkey n w rho1 rho2 x ps1 y k1 k2 s1 s2 He Hc Hk HR.
+  cbn [emb]. unfold eval_q, q_term. fuel n. red_eval. fuel n. red_eval. fuel n. red_eval.
+  unfold step_eval_index. rewrite Hkey. cbn [negb].
+  destruct ha, hb.
+  - fold_eval. apply (Ha eq_refl); try assumption; [eapply cfg_plain; exact Hc|].
+    intros ext z ps' z' [Hz _] t1 t2 Ht. rewrite Hz.
+    fold_eval. apply (Hb eq_refl); try assumption; [apply env_rel_mono; exact He|eapply cfg_plain; exact Hc|].
+    intros ext' z2 ps2 z2' [Hz2 _] r1 r2 Hr. rewrite Hz2.
+    apply (slice_core m); try assumption. rewrite app_assoc. apply Hk.
+  - fold_eval. apply (Ha eq_refl); try assumption; [eapply cfg_plain; exact Hc|].
+    intros ext z ps' z' [Hz _] t1 t2 Ht. rewrite Hz.
+    apply (slice_core m); try assumption. apply Hk.
+  - fold_eval. apply (Hb eq_refl); try assumption; [eapply cfg_plain; exact Hc|].
+    intros ext z ps' z' [Hz _] t1 t2 Ht. rewrite Hz.
+    apply (slice_core m); try assumption. apply Hk.
+  - discriminate Hkey.
+Qed.
+
+(* -- array destructuring:  e as [$a, $b, ...] | p -- *)
+Lemma syn_depth_SS : exists d, syn_depth = S (S d).
+Proof. eexists. vm_compute. reflexivity. Qed.
+
+Definition mkvp (x : bytes) : pattern := Pattern x [] [].
+
+Lemma pattern_vars_arr d xs : Forall (fun x => is_var_name x = true) xs ->
+  pattern_vars (S (S d)) (Pattern [] (map mkvp xs) []) = xs.
+Proof.
+  intros H. cbn [pattern_vars app]. rewrite app_nil_r. induction H as [|x r Hx _ IH]; [reflexivity|].
+  cbn [map flat_map]. rewrite IH. destruct x as [|c x]; [discriminate Hx|]. reflexivity.
+Qed.
+
+Lemma env_rel_nulls w xs : forall rho1 rho2, env_rel w rho1 rho2 ->
+  env_rel w (fold_left (fun acc nm => BVar nm (plain VNull) :: acc) xs rho1)
+            (fold_left (fun acc nm => BVar nm (plain VNull) :: acc) xs rho2).
+Proof. induction xs as [|x r IH]; intros rho1 rho2 H; [exact H|]. cbn [fold_left]. apply IH. constructor; [reflexivity|exact H]. Qed.
+
+Lemma bindpat_var n rho c nm wv ps kb :
+  ev_bindpat (evals_n bs (S n)) rho (Pattern (c :: nm) [] []) wv ps kb = kb (BVar (c :: nm) wv :: rho) ps.
+Proof. reflexivity. Qed.
+
+Lemma bind_arr_fold w n (x y : tv) (kb1 kb2 : env -> pst -> M unit) : fst y = fst x ->
+  (forall r1 r2, env_rel w r1 r2 -> forall u1 u2, SR root w u1 u2 -> RR w (kb1 r1 None u1) (kb2 r2 None u2)) ->
+  forall xs, Forall (fun x => is_var_name x = true) xs ->
+  forall i rho1 rho2 t1 t2, env_rel w rho1 rho2 -> SR root w t1 t2 ->
+  RR w (cps_fold (fun (pi : pattern) (st : Z * env * pst) kk =>
+                    let '(i, rho, ps) := st in
+                    lift (fn_indexarray (fst x) i) (fun u =>
+                      nav ps x (VInt i) u (fun wv ps' =>
+                        ev_bindpat (evals_n bs n) rho pi wv ps' (fun rho' ps'' => kk ((i + 1)%Z, rho', ps'')))))
+                 (map mkvp xs) (i, rho1, None) (fun st => kb1 (snd (fst st)) (snd st)) t1)
+       (cps_fold (fun (pi : pattern) (st : Z * env * pst) kk =>
+                    let '(i, rho, ps) := st in
+                    lift (fn_indexarray (fst y) i) (fun u =>
+                      nav ps y (VInt i) u (fun wv ps' =>
+                        ev_bindpat (evals_n bs n) rho pi wv ps' (fun rho' ps'' => kk ((i + 1)%Z, rho', ps'')))))
+                 (map mkvp xs) (i, rho2, None) (fun st => kb2 (snd (fst st)) (snd st)) t2).
+Proof.
+  intros Hy Hkb xs Hxs. destruct x as [xv xi], y as [yv yi]. cbn [fst] in Hy. subst yv.
+  induction Hxs as [|c r Hc _ IH]; intros i rho1 rho2 t1 t2 He Ht.
+  - cbn [map cps_fold fst snd]. apply Hkb; assumption.
+  - cbn [map cps_fold]. cbn [fst]. apply lift_rel; [exact Ht|]. intros u _.
+    cbn [nav]. destruct n as [|n]; [left; exact I|]. destruct c as [|c0 c]; [discriminate Hc|].
+    change (mkvp (c0 :: c)) with (Pattern (c0 :: c) [] []). rewrite !bindpat_var.
+    apply IH; [|exact Ht]. constructor; [reflexivity|exact He].
+Qed.
+
+Lemma sim_bindarr m e xs p : xs <> [] -> Forall (fun x => is_var_name x = true) xs ->
+  sim MPlain e -> sim m p -> sim m (PBindArr e xs p).
+Proof.
+  intros Hne Hxs Hse Hp n w rho1 rho2 x ps1 y k1 k2 s1 s2 He Hc Hk HR. do 2 fuel n.
+  cbn [emb]. unfold eval_q. red_eval.
+  destruct syn_depth_SS as [d Hd]. rewrite Hd.
+  cbn [flat_map]. rewrite app_nil_r. change (fun x0 : bytes => Pattern x0 [] []) with mkvp.
+  rewrite (pattern_vars_arr d xs Hxs). cbn [alts_loop].
+  fold_eval. apply Hse; try assumption; [eapply cfg_plain; exact Hc|].
+  intros ext z ps' z' [Hz _] t1 t2 Ht.
+  cbn [evals_n step ev_bindpat]. unfold step_bind_pat.
+  destruct xs as [|x0 xs]; [congruence|]. cbn [map]. unfold mkvp at 1 3.
+  change (Pattern x0 [] [] :: map mkvp xs) with (map mkvp (x0 :: xs)).
+  apply (bind_arr_fold (ext ++ w) n z z' (fun r _ => eval_q bs (S n) r (emb p) x ps1 k1) (fun r _ => eval_q bs (S n) r (emb p) y None k2)); try assumption.
+  - intros r1 r2 Hr u1 u2 Hu. fold_eval. apply Hp; try assumption. apply krel_mono. exact Hk.
+  - apply env_rel_nulls. apply env_rel_mono. exact He.
+Qed.
+
+(* -- object destructuring:  e as {$a, k: $b, ...} | p -- *)
+Lemma pattern_vars_obj d es : Forall po_ok es ->
+  pattern_vars (S (S d)) (Pattern [] [] (map emb_po es)) = map po_var es.
+Proof.
+  intros H. cbn [pattern_vars app flat_map]. induction H as [|e r He _ IH]; [reflexivity|].
+  cbn [map flat_map]. rewrite IH. destruct e as [xv|k xv]; cbn [emb_po po_var po_ok] in *.
+  - rewrite He. reflexivity.
+  - destruct He as (_ & -> & Hx). destruct xv as [|c xv]; [discriminate Hx|]. reflexivity.
+Qed.
+
+Lemma sim_bindobj m e es p : es <> [] -> Forall po_ok es ->
+  sim MPlain e -> sim m p -> sim m (PBindObj e es p).
+Proof.
+  intros Hne Hes Hse Hp n w rho1 rho2 x ps1 y k1 k2 s1 s2 He Hc Hk HR. do 2 fuel n.
+  cbn [emb]. unfold eval_q. red_eval.
+  destruct syn_depth_SS as [d Hd]. rewrite Hd.
+  cbn [flat_map]. rewrite app_nil_r. rewrite (pattern_vars_obj d es Hes). cbn [alts_loop].
+  fold_eval. apply Hse; try assumption; [eapply cfg_plain; exact Hc|].
+  intros ext z ps' z' [Hz _] t1 t2 Ht.
+  destruct z as [zv zi], z' as [zv' zi']. cbn [fst] in Hz. subst zv'.
+  cbn [evals_n step ev_bindpat]. unfold step_bind_pat.
+  destruct es as [|e0 es]; [congruence|]. cbn [map].
+  change (emb_po e0 :: map emb_po es) with (map emb_po (e0 :: es)).
+  match goal with |- RR _ (cps_fold ?F1 _ _ _ _) (cps_fold ?F2 _ _ _ _) => set (G1 := F1); set (G2 := F2) end.
+  assert (HI : forall es', Forall po_ok es' -> forall r1 r2 u1 u2, env_rel (ext ++ w) r1 r2 -> SR root (ext ++ w) u1 u2 ->
+            RR (ext ++ w)
+               (cps_fold G1 (map emb_po es') (r1, None)
+                  (fun st => (fun (rho' : env) (_ : pst) => eval_q bs (S n) rho' (emb p) x ps1 k1) (fst st) (snd st)) u1)
+               (cps_fold G2 (map emb_po es') (r2, None)
+                  (fun st => (fun (rho' : env) (_ : pst) => eval_q bs (S n) rho' (emb p) y None k2) (fst st) (snd st)) u2)).
+  { induction 1 as [|e1 r Hok _ IH]; intros r1 r2 u1 u2 Hr Hu.
+    - cbn [map cps_fold fst snd]. apply Hp; try assumption. apply krel_mono. exact Hk.
+    - cbn [map cps_fold]. unfold G1 at 1, G2 at 1. destruct e1 as [xv|k xv]; cbn [emb_po po_ok] in *.
+      + destruct xv as [|c xv]; [discriminate Hok|]. rewrite Hok. cbn [fst].
+        apply lift_rel; [exact Hu|]. intros u _. cbn [nav].
+        apply IH; [|exact Hu]. constructor; [reflexivity|exact Hr].
+      + destruct Hok as (Hk0 & Hk1 & Hx). destruct k as [|c k]; [congruence|]. rewrite Hk1. cbn [fst].
+        apply lift_rel; [exact Hu|]. intros u _. cbn [nav].
+        destruct n as [|n']; [left; exact I|].
+        destruct xv as [|c' xv]; [discriminate Hx|]. rewrite !bindpat_var.
+        apply IH; [|exact Hu]. constructor; [reflexivity|exact Hr]. }
+  apply HI; try assumption. apply env_rel_nulls. apply env_rel_mono. exact He.
+Qed.
+
+(* -- more expressions: [e], reduce, foreach (outside path tracking on both sides) -- *)
+Definition extends (W w : world) : Prop := exists E, W = E ++ w.
+Lemma extends_refl w : extends w w.
+Proof. exists []. reflexivity. Qed.
+Lemma extends_app E W w : extends W w -> extends (E ++ W) w.
+Proof. intros [E' ->]. exists (E ++ E'). rewrite app_assoc. reflexivity. Qed.
+Lemma extends_cons fr W w : extends W w -> extends (fr :: W) w.
+Proof. intros H. apply (extends_app [fr]). exact H. Qed.
+Lemma extends_mid E fr W w : extends W w -> extends (E ++ fr :: W) w.
+Proof. intros H. apply extends_app. apply extends_cons. exact H. Qed.
+Lemma env_rel_ext W w rho1 rho2 : extends W w -> env_rel w rho1 rho2 -> env_rel W rho1 rho2.
+Proof. intros [E ->]. apply env_rel_mono. Qed.
+Lemma krel_ext m W w k1 k2 : extends W w -> krel m w k1 k2 -> krel m W k1 k2.
+Proof. intros [E ->]. apply krel_mono. Qed.
+Hint Resolve extends_refl extends_app extends_cons extends_mid : ext.
+
+Lemma sim_array e : sim MPlain e -> sim MPlain (PArray e).
+Proof.
+  intros Hse n w rho1 rho2 x ps1 y k1 k2 s1 s2 He Hc Hk HR. do 2 fuel n.
+  assert (Hps : ps1 = None) by apply Hc. subst ps1.
+  cbn [emb]. unfold eval_q, q_term. red_eval. cbn [scoped_ids].
+  apply (with_cell_rel w false); [exact HR|reflexivity| |].
+  - intros t1 t2 Ht. apply RR_pop_cell; [reflexivity|]. fold_eval.
+    apply Hse; try assumption; [apply (env_rel_mono [_]); exact He|].
+    intros ext z ps' z' [Hz _] u1 u2 Hu.
+    apply (get_cell_rel ext (mkfr false (nextid s1) (nextid s2)) w); [exact Hu|]. intros c1 c2 Hcc.
+    rewrite Hcc, Hz. destruct (fst c2); try (left; exact I).
+    apply (set_cell_rel ext (mkfr false (nextid s1) (nextid s2)) w); [exact Hu|reflexivity].
+  - intros v1 v2 t1 t2 Hv Ht. rewrite Hv. destruct (fst v2); try (left; exact I).
+    apply (krel_local _ _ _ _ Hk); [split; reflexivity|exact Ht].
+Qed.
+
+Lemma sim_array0 : sim MPlain PArray0.
+Proof.
+  intros n w rho1 rho2 x ps1 y k1 k2 s1 s2 He Hc Hk HR. do 2 fuel n.
+  cbn [emb]. unfold eval_q, q_term. red_eval.
+  apply (krel_local _ _ _ _ Hk); [split; [reflexivity|apply Hc]|exact HR].
+Qed.
+
+Lemma sim_reduce src x0 init upd : is_var_name x0 = true ->
+  sim MPlain src -> sim MPlain init -> sim MPlain upd -> sim MPlain (PReduce src x0 init upd).
+Proof.
+  intros Hx Hsrc Hinit Hupd n w rho1 rho2 x ps1 y k1 k2 s1 s2 He Hc Hk HR. do 2 fuel n.
+  assert (Hps : ps1 = None) by apply Hc. subst ps1.
+  destruct x0 as [|c0 x0]; [discriminate Hx|].
+  cbn [emb]. unfold eval_q, q_term. red_eval.
+  fold_eval. apply Hinit; try assumption.
+  intros ext s0 ps0 s0' [Hs0 Hps0] t1 t2 Ht. cbn in Hps0. subst ps0. cbn [scoped_ids].
+  apply (with_cell_rel (ext ++ w) false); [exact Ht|symmetry; exact Hs0| |].
+  - intros u1 u2 Hu. apply RR_pop_cell; [reflexivity|]. fold_eval.
+    set (fr := mkfr false (nextid t1) (nextid t2)) in *.
+    apply Hsrc; try assumption; [eapply env_rel_ext; [|exact He]; auto with ext|].
+    intros ext2 item psi item' [Hit Hpsi] v1 v2 Hv. cbn in Hpsi. subst psi.
+    destruct n as [|n]; [left; exact I|]. rewrite !bindpat_var.
+    apply (get_cell_rel ext2 fr (ext ++ w)); [exact Hv|]. intros c1 c2 Hcc.
+    fold_eval. apply Hupd; try assumption.
+    + constructor; [symmetry; exact Hit|]. eapply env_rel_ext; [|exact He]. auto with ext.
+    + split; [symmetry; exact Hcc|reflexivity].
+    + intros ext3 u psu u' [Hu' _] r1 r2 Hr. rewrite app_assoc in *.
+      apply (set_cell_rel (ext3 ++ ext2) fr (ext ++ w)); [exact Hr|symmetry; exact Hu'].
+  - intros v1 v2 r1 r2 Hv Hr. apply Hk; [split; [symmetry; exact Hv|reflexivity]|exact Hr].
+Qed.
+
+Lemma sim_foreach src x0 init upd ext0 : is_var_name x0 = true ->
+  sim MPlain src -> sim MPlain init -> sim MPlain upd -> sim MPlain ext0 -> sim MPlain (PForeach src x0 init upd ext0).
+Proof.
+  intros Hx Hsrc Hinit Hupd Hext n w rho1 rho2 x ps1 y k1 k2 s1 s2 He Hc Hk HR. do 2 fuel n.
+  assert (Hps : ps1 = None) by apply Hc. subst ps1.
+  destruct x0 as [|c0 x0]; [discriminate Hx|].
+  cbn [emb]. unfold eval_q, q_term. red_eval.
+  fold_eval. apply Hinit; try assumption.
+  intros ext s0 ps0 s0' [Hs0 Hps0] t1 t2 Ht. cbn in Hps0. subst ps0. cbn [scoped_ids].
+  apply (with_cell_rel (ext ++ w) false); [exact Ht|symmetry; exact Hs0| |intros; apply RR_ret; assumption].
+  intros u1 u2 Hu. apply RR_pop_cell; [reflexivity|]. fold_eval.
+  set (fr := mkfr false (nextid t1) (nextid t2)) in *.
+  apply Hsrc; try assumption; [eapply env_rel_ext; [|exact He]; auto with ext|].
+  intros ext2 item psi item' [Hit Hpsi] v1 v2 Hv. cbn in Hpsi. subst psi.
+  destruct n as [|n]; [left; exact I|]. rewrite !bindpat_var.
+  apply (get_cell_rel ext2 fr (ext ++ w)); [exact Hv|]. intros c1 c2 Hcc.
+  assert (HeI : env_rel (ext2 ++ fr :: ext ++ w) (BVar (c0 :: x0) item :: rho1) (BVar (c0 :: x0) item' :: rho2)).
+  { constructor; [symmetry; exact Hit|]. eapply env_rel_ext; [|exact He]. auto with ext. }
+  fold_eval. apply Hupd; try assumption; [split; [symmetry; exact Hcc|reflexivity]|].
+  intros ext3 u psu u' [Hu' Hpsu] r1 r2 Hr. cbn in Hpsu. subst psu.
+  apply RR_bind.
+  - rewrite app_assoc in *. apply (set_cell_rel (ext3 ++ ext2) fr (ext ++ w)); [exact Hr|symmetry; exact Hu'].
+  - intros q1 q2 Hq. fold_eval. apply Hext; try assumption.
+    + apply env_rel_mono. exact HeI.
+    + split; [exact Hu'|reflexivity].
+    + eapply krel_ext; [|exact Hk]. auto with ext.
+Qed.
+
+(* -- jq-defined builtins without parameters whose body is in the fragment; natives with one argument -- *)
+Lemma sim_builtin0 m name b : is_var_name name = false ->
+  lookup_builtin bs name 0 = Some (FuncDef name [] (emb b)) -> sim m b -> sim m (PBuiltin0 name b).
+Proof.
+  intros Hn Hb Hsb n w rho1 rho2 x ps1 y k1 k2 s1 s2 He Hc Hk HR. do 3 fuel n.
+  cbn [emb]. unfold eval_q, q_call, q_term. red_eval.
+  unfold step_call. cbn [List.length]. rewrite Hn. cbn [andb].
+  destruct (env_rel_fun _ _ _ name O He) as [-> ->]. rewrite Hb.
+  cbn [combine fold_left cps_fold].
+  apply RR_tick; [exact HR|]. intros t1 t2 Ht.
+  fold_eval. apply Hsb; try assumption. constructor.
+Qed.
+
+Lemma sim_native1 name a : native1_ok name = true -> lookup_builtin bs name 1 = None ->
+  sim MPlain a -> sim MPlain (PNative1 name a).
+Proof.
+  intros Hn Hb Ha n w rho1 rho2 x ps1 y k1 k2 s1 s2 He Hc Hk HR. do 3 fuel n.
+  assert (Hps : ps1 = None) by apply Hc. subst ps1.
+  unfold native1_ok in Hn. repeat (apply andb_true_iff in Hn as [Hn ?]).
+  repeat match goal with H : negb _ = true |- _ => apply negb_true_iff in H end.
+  cbn [emb]. unfold eval_q, q_call, q_term. red_eval.
+  unfold step_call. cbn [List.length]. rewrite Hn. cbn [andb].
+  destruct (env_rel_fun _ _ _ name 1%nat He) as [-> ->]. rewrite Hb.
+  unfold guard_repsens.
+  repeat match goal with H : _ = false |- _ => rewrite H end.
+  cbn [rev app cps_fold fst snd].
+  fold_eval. apply Ha; try assumption.
+  intros ext z ps' z' [Hz Hps] t1 t2 Ht. cbn in Hps. subst ps'. cbn [fst snd]. rewrite Hz, (proj1 Hc).
+  destruct (call_native name (fst x) [fst z]) as [r|]; [|left; exact I].
+  apply lift_rel; [exact Ht|]. intros u _. apply Hk; [split; reflexivity|exact Ht].
 Qed.
 
 Theorem sim_all p : forall m, ok bs m p -> sim m p.
@@ -733,6 +1597,22 @@ Proof.
   - apply sim_optidx. exact H.
   - apply sim_optiter.
   - destruct H. apply sim_chain; assumption.
+  - destruct H. apply sim_alt; auto.
+  - apply sim_first; auto.
+  - apply sim_recurse1; auto.
+  - apply sim_recurse0.
+  - apply sim_dotdot.
+  - destruct H. apply sim_limit; auto.
+  - destruct H as (H1 & H2 & H3 & H4). apply sim_elif; auto. eapply emb_if_shape; eassumption.
+  - destruct H as (H1 & H2 & H3). apply sim_slicedyn; auto; [intros ->; auto|intros ->; auto].
+  - destruct H as (H1 & H2 & H3 & H4). apply sim_bindarr; auto.
+  - destruct H as (H1 & H2 & H3 & H4). apply sim_bindobj; auto.
+  - destruct H as (-> & H2). apply sim_array; auto.
+  - subst m. apply sim_array0.
+  - destruct H as (-> & H2 & H3 & H4 & H5). apply sim_reduce; auto.
+  - destruct H as (-> & H2 & H3 & H4 & H5 & H6). apply sim_foreach; auto.
+  - destruct H as (H1 & H2 & H3). apply sim_builtin0; auto.
+  - destruct H as (-> & H2 & H3 & H4). apply sim_native1; auto.
 Qed.
 End Rel.
 
@@ -744,6 +1624,19 @@ Proof.
   induction 1; cbn [rev]; [constructor|]. apply Forall2_app; [assumption|]. constructor; [assumption|constructor].
 Qed.
 
+Definition ending_of_res (r : (unit + exn)) : ending :=
+  match r with
+  | inl _ => EndNormal
+  | inr x => match x with
+             | XStop => EndCap
+             | XErr _ c val => EndError c val
+             | XBreak _ => EndError EBreak None
+             | XHalt hv code => EndHalt hv code
+             | XFuel => EndSkip (codes "fuel")
+             | XSkip why => EndSkip why
+             end
+  end.
+
 Section Top.
 Variable bs : list funcdef.
 Hypothesis Hempty : lookup_builtin bs (codes "empty") 0 = None.
@@ -751,6 +1644,11 @@ Hypothesis Hpath : lookup_builtin bs (codes "path") 1 = None.
 Hypothesis Herror : lookup_builtin bs (codes "error") 0 = None.
 Hypothesis Hgetpath : lookup_builtin bs (codes "getpath") 1 = None.
 Hypothesis Hselect : lookup_builtin bs (codes "select") 1 = Some select_def.
+Hypothesis Hfirst : lookup_builtin bs (codes "first") 1 = Some first_def.
+Hypothesis Hrec1 : lookup_builtin bs (codes "recurse") 1 = Some recurse1_def.
+Hypothesis Hrec0 : lookup_builtin bs (codes "recurse") 0 = Some recurse0_def.
+Hypothesis Hlimit : lookup_builtin bs (codes "limit") 2 = Some limit_def.
+Hypothesis Herror1 : lookup_builtin bs (codes "error") 1 = None.
 
 Lemma top_bump root s1 s2 : top_rel root s1 s2 -> top_rel root (bump s1) s2.
 Proof. exact (fun H => H). Qed.
@@ -768,17 +1666,24 @@ Definition kpath : K := fun x ps' =>
   | None => skipM "path-state"
   end.
 
-Lemma kpath_rel root : krel root (top_rel root) MPath kpath emit.
+Lemma kpath_rel root : krel root MPath [] kpath emit.
 Proof.
-  intros x ps1 y [Hy [pp [-> HL]]] s1 s2 HR. unfold kpath, bind. rewrite (check_linked root x pp _ _ HL).
+  intros ext x ps1 y [Hy [pp [-> HL]]] s1 s2 [HR HC]. unfold kpath, bind. rewrite (check_linked root x pp _ _ HL).
   destruct HL as (_ & H2 & H3 & _). destruct HR as (R1 & R2 & R3 & R4 & R5 & R6).
   unfold emit. rewrite R1, R2. cbn [fst plain].
-  assert (HR' : top_rel root
+  assert (HR' : SR root (ext ++ [])
             (mkst (VArr (rev (rpath pp)) :: outs s1) (S (nout s2)) (cap s2) (nextid s1) (inputs s1) (cells s1) (repsens s1) (steps s1))
             (mkst (fst y :: outs s2) (S (nout s2)) (cap s2) (nextid s2) (inputs s2) (cells s2) (repsens s2) (steps s2))).
-  { repeat split; cbn; try assumption. constructor; [|exact R6]. exists (rev (rpath pp)). split; [reflexivity|].
+  { split; [|exact HC]. repeat split; cbn; try assumption. constructor; [|exact R6]. exists (rev (rpath pp)). split; [reflexivity|].
     rewrite Hy, H2. exact H3. }
-  destruct (Nat.leb (cap s2) (S (nout s2))); apply RR_same; exact HR'.
+  destruct (Nat.leb (cap s2) (S (nout s2))); [apply RR_mono_exn; [discriminate|exact HR']|apply RR_ret; exact HR'].
+Qed.
+
+Lemma rrel_nil_ending r1 r2 : rrel [] r1 r2 -> ending_of_res r1 = ending_of_res r2.
+Proof.
+  destruct r1 as [[]|x1], r2 as [[]|x2]; cbn; try tauto.
+  destruct x1, x2; cbn; try tauto; try discriminate; try (intros [= -> -> ->]; reflexivity);
+    try (intros [= -> ->]; reflexivity); try (intros [= ->]; reflexivity); try reflexivity.
 Qed.
 
 Lemma path_unfold n q v k s :
@@ -799,18 +1704,7 @@ Proof.
   cbn [ev_path step]. unfold step_eval_path. unfold bind at 1. unfold fresh at 1. cbn [fst snd plain]. reflexivity.
 Qed.
 
-Definition ending_of (r : (unit + exn)) : ending :=
-  match r with
-  | inl _ => EndNormal
-  | inr x => match x with
-             | XStop => EndCap
-             | XErr _ c val => EndError c val
-             | XBreak _ => EndError EBreak None
-             | XHalt hv code => EndHalt hv code
-             | XFuel => EndSkip (codes "fuel")
-             | XSkip why => EndSkip why
-             end
-  end.
+Definition ending_of := ending_of_res.
 
 Lemma observe_eq fuel capn rs ins q v :
   observe bs fuel capn rs ins q v =
@@ -843,8 +1737,8 @@ Proof.
   unfold raw_run in V1, V2. rewrite <- E1 in V1. rewrite <- E2 in V2.
   rewrite !observe_eq. unfold raw_run. cbn [fst snd].
   rewrite path_unfold in *.
-  pose proof (sim_all bs v (top_rel v) (top_bump v) (top_rs v) (top_steps v) (top_dec v) Hempty Herror Hgetpath Hselect
-                p MPath Hp N [] []
+  pose proof (sim_all bs v Hempty Herror Hgetpath Hselect Hfirst Hrec1 Hrec0 Hlimit Herror1
+                p MPath Hp N [] [] []
                 (v, Some (nextid (init_state capn ins rs))) (Some (mkp [] v (nextid (init_state capn ins rs)))) (plain v)
                 kpath emit (bump (init_state capn ins rs)) (init_state capn ins rs)) as HS.
   change (fun (x : tv) (ps' : pst) => match ps' with
@@ -854,10 +1748,10 @@ Proof.
   - constructor.
   - split; [reflexivity|]. eexists. split; [reflexivity|]. repeat split; cbn; try reflexivity. exact Hv.
   - apply kpath_rel.
-  - repeat split; cbn; constructor.
+  - repeat split; cbn; try constructor; try reflexivity.
   - exfalso. exact (verdict_not_declined _ V1 D).
   - exfalso. exact (verdict_not_declined _ V2 D).
-  - rewrite F. split; [reflexivity|]. unfold rev'. rewrite <- !rev_alt. apply Forall2_rev. apply S.
+  - unfold ending_of. rewrite (rrel_nil_ending _ _ F). split; [reflexivity|]. unfold rev'. rewrite <- !rev_alt. apply Forall2_rev. apply S.
 Qed.
 End Top.
 
@@ -904,10 +1798,58 @@ Proof.
   cbn [Nat.add evals_n step ev_q step_eval_q push_defs fold_left ev_t step_eval_t rev app].
   apply iterate_invalid. exact H.
 Qed.
+
+(* "computed" does not depend on the representation flag *)
+Lemma intact_No_rs rs rs' x pp : intact rs x pp = No -> intact rs' x pp = No.
+Proof.
+  unfold intact. destruct (snd x) as [i|]; [destruct (i =? lid pp)%N; [discriminate|]|];
+    destruct (negb (strict_eqb (fst x) (lv pp))); try reflexivity;
+    destruct (fst x) as [| | [z|f] | | |]; try discriminate;
+    try (destruct (in_intb z && negb rs); discriminate); destruct rs; discriminate.
+Qed.
+
+Lemma nav_invalid' pp x key w k s : (forall rs, intact rs x pp = No) ->
+  nav (Some pp) x key w k s = raise_err EInvalidPath (msg_invalid_path (fst x)) s.
+Proof. intros H. apply nav_invalid. apply H. Qed.
+
+(* a COMPUTED key .[e] from a computed value: the key expression runs (outside path tracking), then the error of
+   the index function or the invalid-path error; the consumer k does not occur in the result *)
+Theorem idxdyn_from_computed e n rho x pp k s : query_index_key (emb e) = None -> intact (repsens s) x pp = No ->
+  eval_q bs (4 + n) rho (emb (PIdxDyn e)) x (Some pp) k s =
+  eval_q bs (S n) rho (emb e) x None
+    (fun ix _ s' => match fn_index2 (fst x) (fst ix) with
+                    | NOk _ => raise_err EInvalidPath (msg_invalid_path (fst x)) s'
+                    | NErr c val => raise_err c val s'
+                    | NSkip why => (inr (XSkip why), s')
+                    end) s.
+Proof.
+  intros Hq H. cbn [emb]. unfold eval_q, q_term.
+  cbn [Nat.add evals_n step ev_q step_eval_q push_defs fold_left ev_t step_eval_t rev app ev_index].
+  unfold step_eval_index. cbn [index_key negb]. rewrite Hq.
+  cbn [ev_t step step_eval_t rev app ev_q].
+  f_equal. apply FunctionalExtensionality.functional_extensionality. intros ix.
+  apply FunctionalExtensionality.functional_extensionality. intros ps'.
+  apply FunctionalExtensionality.functional_extensionality. intros s'.
+  destruct (fn_index2 (fst x) (fst ix)); cbn [lift]; try reflexivity.
+  apply nav_invalid'. intros rs. eapply intact_No_rs. exact H.
+Qed.
 End Neg.
 
 Theorem path_sound_law bs : builtins_ok bs -> forall p, pf bs p -> path_law bs (emb p).
 Proof.
-  intros (H1 & H2 & H3 & H4 & H5) p Hp n1 n2 capn rs ins v Hv V1 V2.
-  apply (path_sound bs H1 H2 H3 H4 H5 p Hp); assumption.
+  intros (H1 & H2 & H3 & H4 & H5 & H6 & H7 & H8 & H9 & H10) p Hp n1 n2 capn rs ins v Hv V1 V2.
+  apply (path_sound bs H1 H2 H3 H4 H5 H6 H7 H8 H9 H10 p Hp); assumption.
+Qed.
+
+Lemma out_rel_getpath v q w : out_rel v q w -> out_getpath v q w.
+Proof.
+  intros [path [-> H]]. exists path. split; [reflexivity|].
+  destruct (str_nav v path) eqn:E; [right; reflexivity|left; apply getpath_nav; assumption].
+Qed.
+
+Theorem path_sound_getpath bs : builtins_ok bs -> forall p, pf bs p -> path_law_getpath bs (emb p).
+Proof.
+  intros Hb p Hp n1 n2 capn rs ins v Hv V1 V2.
+  destruct (path_sound_law bs Hb p Hp n1 n2 capn rs ins v Hv V1 V2) as [E F]. split; [exact E|].
+  clear -F. induction F; constructor; [apply out_rel_getpath; assumption|assumption].
 Qed.
